@@ -85,7 +85,7 @@ Lemma long_matches_spec lo l suffix :
 Proof.
   intros Hlo Hl Hsuf. unfold long_matches, streq_ci.
   destruct (bytes_eqb (lower lo) (lower l)) eqn:E.
-  - apply bytes_eqb_eq in E. assert (Hlen : length lo = length l) by (rewrite <- !lower_length; congruence).
+  - apply bytes_eqb_eq in E. assert (Hlen : length lo = length l) by (rewrite <- (lower_length lo), <- (lower_length l), E; reflexivity).
     rewrite Hlen, firstn_app, Nat.sub_diag, firstn_all, firstn_O, app_nil_r.
     replace (length l <=? length (l ++ suffix)) with true by (symmetry; apply Nat.leb_le; rewrite app_length; lia).
     rewrite (proj2 (bytes_eqb_eq _ _) E). simpl.
@@ -168,4 +168,1548 @@ Proof.
   - destruct (is_string o) eqn:E; auto. now rewrite (string_needs_value _ E) in H.
   - destruct (is_integer o) eqn:E; auto. now rewrite (integer_needs_value _ E) in H.
   - destruct (is_arglist o) eqn:E; auto. now rewrite (arglist_needs_value _ E) in H.
+Qed.
+
+(* ---------------------------------------------------------------------------------- *)
+(* B. computation rules                                                                *)
+(* ---------------------------------------------------------------------------------- *)
+Lemma upd_upd_same {A} (l : list A) k v w : upd (upd l k v) k w = upd l k w.
+Proof. revert k; induction l as [|x t IH]; intros [|k]; simpl; auto. now rewrite IH. Qed.
+
+Lemma slot_upd_put {A} (l : list A) k f : k < length l -> slot_upd l (Some k) f = Ok (put l (Some k) f).
+Proof.
+  intros H. unfold slot_upd, put. destruct (nth_error l k) eqn:E; auto.
+  apply nth_error_None in E. lia.
+Qed.
+
+Lemma put_length {A} (l : list A) slot f : length (put l slot f) = length l.
+Proof. unfold put. destruct slot as [k|]; auto. destruct (nth_error l k); auto. apply upd_length. Qed.
+
+Section Rules.
+  Variable e : env.
+  Variable n : nat.
+  Hypothesis Hargc : e_argc e = length (e_strs e).
+  Hypothesis Hnz : forall i s, nth_error (e_strs e) i = Some s -> nz_word s = true.
+  Hypothesis Hnames : names_ok (e_tbl e) = true.
+  Hypothesis Hwt : wf_table n (e_tbl e).
+  Variable rec : st -> option ptr -> res outcome.
+
+  (* "if (!PREPARSE && REMOVE_ARGS) argv[k] = NULL" *)
+  Definition clr (a : list (option nat)) (k : nat) : list (option nat) :=
+    if rm_active e then upd a k None else a.
+
+  Lemma clr_length a k : length (clr a k) = length a.
+  Proof. unfold clr. destruct (rm_active e); auto. apply upd_length. Qed.
+  Lemma clr_idem a k : clr (clr a k) k = clr a k.
+  Proof. unfold clr. destruct (rm_active e); auto. apply upd_upd_same. Qed.
+  Lemma clr_other a k m : k <> m -> nth_error (clr a k) m = nth_error a m.
+  Proof. unfold clr. destruct (rm_active e); auto. intros. now apply nth_error_upd_neq. Qed.
+
+  Lemma getc_at i s k :
+    nth_error (e_strs e) i = Some s -> k <= length s -> getc e (i, k) = Ok (nth k s 0%Z).
+  Proof.
+    intros H Hk. unfold getc, str_of. simpl. rewrite H. simpl.
+    destruct (k <? length s) eqn:E; [reflexivity|].
+    apply Nat.ltb_ge in E. assert (k = length s) by lia. subst. rewrite Nat.eqb_refl.
+    now rewrite nth_overflow by lia.
+  Qed.
+
+  Lemma cstr_at_at i s k :
+    nth_error (e_strs e) i = Some s -> k <= length s -> cstr_at e (i, k) = Ok (skipn k s).
+  Proof.
+    intros H Hk. unfold cstr_at, str_of. simpl. rewrite H. simpl.
+    apply Nat.leb_le in Hk. rewrite Hk. f_equal. apply take_nz_id. apply nz_word_skipn. eauto.
+  Qed.
+
+  Lemma nth_nz i s k : nth_error (e_strs e) i = Some s -> k < length s -> (nth k s 0%Z =? 0)%Z = false.
+  Proof.
+    intros H Hk. apply Z.eqb_neq. pose proof (Hnz _ _ H) as Hn. apply nz_word_forall in Hn.
+    rewrite Forall_forall in Hn. apply Hn. now apply nth_In.
+  Qed.
+
+  Lemma clear_arg_at s :
+    st_i s < length (st_argv s) -> clear_arg e s = Ok (set_argv s (clr (st_argv s) (st_i s))).
+  Proof.
+    intros H. unfold clear_arg, clr. destruct (rm_active e); [|destruct s; reflexivity].
+    unfold argv_set. apply Nat.ltb_lt in H. rewrite H. reflexivity.
+  Qed.
+
+  Lemma argv_get_at a k v : nth_error a k = Some v -> argv_get a k = Ok v.
+  Proof. intros H. unfold argv_get. now rewrite H. Qed.
+
+  (* the store after a flag occurrence of o, as the model computes it *)
+  Lemma handle_boolean_flag o sto val :
+    In o (e_tbl e) -> is_boolean o = true -> needs_value o = false -> wf_store n sto ->
+    handle_boolean e o sto val false = Ok (assign (e_pre e) o AFlag sto, true).
+  Proof.
+    intros Hin Hb Hnv (W1 & _). unfold handle_boolean, assign, kind_of, should_parse. rewrite Hb.
+    destruct Hwt as [Hs Hbo]. destruct (o_slot o) as [k|] eqn:Ek; [|exfalso; eapply Hbo; eauto].
+    pose proof (Hs _ _ Hin Ek).
+    assert (Hgo : (if Bool.eqb (e_pre e) (is_preparse o)
+                   then b <- slot_upd (sb sto) (Some k) (or_mask o);; Ok (set_sb sto b) else Ok sto) =
+                  Ok (if negb (Bool.eqb (e_pre e) (is_preparse o)) then sto
+                      else set_sb sto (put (sb sto) (Some k) (or_mask o)))).
+    { destruct (Bool.eqb (e_pre e) (is_preparse o)); simpl; auto. rewrite slot_upd_put by lia. reflexivity. }
+    destruct val; rewrite Hgo; reflexivity.
+  Qed.
+  (* ---------------------------------------------------------------------------------- *)
+  (* C. one equation per kind of spelling                                                *)
+  (* ---------------------------------------------------------------------------------- *)
+  (* what the parser finds behind argument i: the NULL at the end, or argument i + 1 untouched *)
+  Definition nxt_ok (a : list (option nat)) (i : nat) (nxt : option nat) : Prop :=
+    nth_error a (S i) = Some nxt /\
+    (nxt = None \/ (nxt = Some (S i) /\ exists s1, nth_error (e_strs e) (S i) = Some s1)).
+
+  Lemma nxt_cstr a i nxt v : nxt_ok a i nxt -> arg_ptr nxt = Some v -> exists vs, cstr_at e v = Ok vs /\ nth_error (e_strs e) (S i) = Some vs /\ v = (S i, 0).
+  Proof.
+    intros (_ & [->|(-> & s1 & Hs1)]) H; simpl in H; [discriminate|]. inversion H; subst.
+    exists s1. rewrite (cstr_at_at _ _ 0 Hs1) by lia. auto.
+  Qed.
+
+  Lemma assign_none pre o a sto :
+    is_boolean o = false -> needs_value o = false -> is_abstract o = false -> assign pre o a sto = sto.
+  Proof.
+    intros Hb Hn Ha. destruct (needs_value_false_kinds _ Hn) as (H1 & H2 & H3).
+    unfold assign, kind_of. rewrite Hb, H1, H2, H3, Ha. destruct (negb _); reflexivity.
+  Qed.
+
+  Lemma tbl_get_at j o : nth_error (e_tbl e) j = Some o -> tbl_get e j = Ok o.
+  Proof. intros H. unfold tbl_get. now rewrite H. Qed.
+
+  (* a letter of a bundle of flags, the cursor on it *)
+  Lemma lookup_flag sa sto sbad shelps snbad i str k x o nxt :
+    nth_error (e_strs e) i = Some str -> nth_error str k = Some x -> letter_ok_b x = true ->
+    find_opt (e_tbl e) (ByShort x) = Some o -> flag_kind o = true ->
+    i < length sa -> nxt_ok sa i nxt -> wf_store n sto ->
+    lookup e rec (mkst i sa sto sbad shelps snbad) (i, k) =
+      let s' := mkst i (clr sa i) (assign (e_pre e) o AFlag sto) sbad shelps snbad in
+      if S k <? length str then rec s' (Some (i, S k)) else rec (set_i s' (S i)) (arg_ptr nxt).
+  Proof.
+    intros Hstr Hx Hlet Hfind Hkind Hi Hnxt Hwf.
+    assert (Hk : k < length str) by (apply nth_error_Some; congruence).
+    unfold letter_ok_b in Hlet. apply andb_true_iff in Hlet. destruct Hlet as [Hx0 Hx45].
+    apply negb_true_iff in Hx0. apply negb_true_iff in Hx45.
+    unfold flag_kind in Hkind. apply andb_true_iff in Hkind. destruct Hkind as [Hnv Hab].
+    apply negb_true_iff in Hnv. apply negb_true_iff in Hab.
+    destruct (find_short_spec _ _ _ Hfind) as (j & Hj & Hnth).
+    pose proof (nth_error_In _ _ Hnth) as Hin.
+    unfold lookup. rewrite (getc_at _ _ _ Hstr) by lia. rewrite (nth_error_nth _ _ _ Hx). cbn [bind].
+    rewrite Hx45, Hj. unfold after_find.
+    rewrite clear_arg_at by (simpl; auto). cbn [bind set_argv st_i st_argv st_sto st_bad st_helps st_nbad].
+    destruct Hnxt as (Hn1 & Hn2).
+    rewrite (argv_get_at _ _ nxt) by (rewrite clr_other by lia; exact Hn1). cbn [bind].
+    unfold find_value. cbn [fst snd]. rewrite (getc_at _ _ _ Hstr) by lia. cbn [bind].
+    rewrite (tbl_get_at _ _ Hnth).
+    (* every candidate value is dropped: short boolean, or an option that takes no value *)
+    assert (Hdrop : forall (val : option ptr) hasequal,
+               (forall v, val = Some v -> exists vs, cstr_at e v = Ok vs) ->
+               (o' <- Ok o;;
+                match val with
+                | Some v =>
+                    vs <- cstr_at e v;;
+                    (if is_boolean o' && (negb false || negb (is_boolean_value vs))
+                     then with_value e rec (mkst i (clr sa i) sto sbad shelps snbad) (i, k) o' nxt false hasequal None
+                     else if is_abstract o'
+                          then is_valid_option e vs (mkst i (clr sa i) sto sbad shelps snbad)
+                                 (fun valid s => with_value e rec s (i, k) o' nxt false hasequal (if valid then None else val))
+                          else if negb (needs_value o') && negb (is_boolean o')
+                               then with_value e rec (mkst i (clr sa i) sto sbad shelps snbad) (i, k) o' nxt false hasequal None
+                               else with_value e rec (mkst i (clr sa i) sto sbad shelps snbad) (i, k) o' nxt false hasequal val)
+                | None => with_value e rec (mkst i (clr sa i) sto sbad shelps snbad) (i, k) o' nxt false hasequal None
+                end) =
+               with_value e rec (mkst i (clr sa i) sto sbad shelps snbad) (i, k) o nxt false hasequal None).
+    { intros val hasequal Hv. cbn [bind]. destruct val as [v|]; [|reflexivity].
+      destruct (Hv v eq_refl) as (vs & ->). cbn [bind].
+      destruct (is_boolean o) eqn:Eb; cbn [negb orb andb]; [reflexivity|].
+      rewrite Hab, Hnv. reflexivity. }
+    (* from with_value on *)
+    assert (Hwv : forall hasequal,
+               with_value e rec (mkst i (clr sa i) sto sbad shelps snbad) (i, k) o nxt false hasequal None =
+               next_letter e rec (mkst i (clr sa i) (assign (e_pre e) o AFlag sto) sbad shelps snbad) (i, k)).
+    { intros hasequal. unfold with_value, consume_value. cbn [is_some andb bind].
+      rewrite Hnv, Hab. cbn [andb]. unfold dispatch. cbn [bind].
+      destruct (is_boolean o) eqn:Eb.
+      - cbn [st_sto]. rewrite (handle_boolean_flag _ _ None Hin Eb Hnv Hwf). cbn [bind].
+        unfold set_sto. cbn [st_i st_argv st_sto st_bad st_helps st_nbad].
+        rewrite clear_arg_at by (simpl; rewrite clr_length; auto).
+        cbn [bind set_argv st_i st_argv st_sto st_bad st_helps st_nbad]. rewrite clr_idem.
+        unfold next_loop. reflexivity.
+      - destruct (needs_value_false_kinds _ Hnv) as (H1 & H2 & H3). rewrite H1, H2, H3, Hab.
+        rewrite clear_arg_at by (simpl; rewrite clr_length; auto).
+        cbn [bind set_argv st_i st_argv st_sto st_bad st_helps st_nbad]. rewrite clr_idem.
+        rewrite (assign_none _ _ _ _ Eb Hnv Hab). unfold next_loop. reflexivity. }
+    assert (Hnl : next_letter e rec (mkst i (clr sa i) (assign (e_pre e) o AFlag sto) sbad shelps snbad) (i, k) =
+                  if S k <? length str
+                  then rec (mkst i (clr sa i) (assign (e_pre e) o AFlag sto) sbad shelps snbad) (Some (i, S k))
+                  else rec (set_i (mkst i (clr sa i) (assign (e_pre e) o AFlag sto) sbad shelps snbad) (S i)) (arg_ptr nxt)).
+    { unfold next_letter. cbn [fst snd]. rewrite (getc_at _ _ _ Hstr) by lia. cbn [bind].
+      destruct (S k <? length str) eqn:E.
+      - apply Nat.ltb_lt in E. rewrite (nth_nz _ _ _ Hstr E). reflexivity.
+      - apply Nat.ltb_ge in E. rewrite nth_overflow by lia. cbn [Z.eqb].
+        unfold next_arg. cbn [set_i st_i st_argv st_sto st_bad st_helps st_nbad].
+        rewrite (argv_get_at _ _ nxt) by (rewrite clr_other by lia; exact Hn1). reflexivity. }
+    cbv zeta. rewrite <- Hnl, <- (Hwv false).
+    destruct (S k <? length str) eqn:E.
+    - apply Nat.ltb_lt in E. rewrite (nth_nz _ _ _ Hstr E). cbn [bind].
+      apply (Hdrop (Some (i, S k)) false). intros v Hv. inversion Hv; subst.
+      rewrite (cstr_at_at _ _ _ Hstr) by lia. eauto.
+    - apply Nat.ltb_ge in E. rewrite nth_overflow by lia. cbn [Z.eqb bind].
+      apply (Hdrop (arg_ptr nxt) false). intros v Hv.
+      destruct (nxt_cstr _ _ _ _ (conj Hn1 Hn2) Hv) as (vs & Hvs & _). eauto.
+  Qed.
+  (* ---- options with a value ---- *)
+  (* the kinds a value survives the filter for and is assigned *)
+  Definition keeps_value (o : opt) (vs : word) (islong hasequal : bool) : Prop :=
+    value_kind o vs = true \/
+    (bool_kind o = true /\ islong = true /\ is_boolean_value vs = true) \/
+    list_kind o = true.
+
+  Lemma next_arg_at s a :
+    nth_error (st_argv s) (S (st_i s)) = Some a -> next_arg rec s = rec (set_i s (S (st_i s))) (arg_ptr a).
+  Proof. intros H. unfold next_arg. cbn [set_i st_i st_argv]. now rewrite (argv_get_at _ _ _ H). Qed.
+
+  Lemma arglist_words_eq s v vs :
+    cstr_at e v = Ok vs -> arglist_words e s v true = Ok (split_words vs).
+  Proof.
+    intros H. unfold arglist_words. rewrite H. cbn [bind]. unfold fill_array, split_words.
+    rewrite map_length, seq_length, Nat.leb_refl. reflexivity.
+  Qed.
+
+  (* the type dispatch for a value that was kept: the ideal assignment, argv[i] = NULL, NEXT_ARG *)
+  Lemma dispatch_value si sa sto sbad shelps snbad p o islong hasequal v vs :
+    In o (e_tbl e) -> cstr_at e v = Ok vs -> keeps_value o vs islong hasequal ->
+    (list_kind o = true -> hasequal = true) -> wf_store n sto ->
+    si < length sa ->
+    dispatch e rec (mkst si sa sto sbad shelps snbad) p o islong hasequal (Some v) =
+    next_arg rec (mkst si (clr sa si) (assign (e_pre e) o (AVal vs) sto) sbad shelps snbad).
+  Proof.
+    intros Hin Hvs Hk Hle (W1 & W2 & W3 & W4) Hsi. destruct Hwt as [Hslot Hbool].
+    assert (Hfin : forall sto', (s' <- clear_arg e (mkst si sa sto' sbad shelps snbad);; next_loop e rec s' p islong (Some v)) =
+                                next_arg rec (mkst si (clr sa si) sto' sbad shelps snbad)).
+    { intros sto'. rewrite clear_arg_at by (simpl; auto). cbn [bind set_argv st_i st_argv st_sto st_bad st_helps st_nbad].
+      unfold next_loop. cbn [is_some]. now rewrite orb_true_r. }
+    unfold dispatch. rewrite Hvs. cbn [bind]. unfold assign, kind_of, should_parse.
+    destruct Hk as [Hk|[(Hk & Hl & Hbv)|Hk]]; [| |pose proof (Hle Hk) as He].
+    - (* string, integer, abstract *)
+      unfold value_kind in Hk. apply andb_true_iff in Hk. destruct Hk as [Hb Hk].
+      apply negb_true_iff in Hb. rewrite Hb. apply orb_true_iff in Hk. destruct Hk as [Hk|Hk].
+      + repeat (apply andb_true_iff in Hk; destruct Hk as [Hk ?]).
+        destruct (o_slot o) as [k|] eqn:Ek; [|discriminate]. pose proof (Hslot _ _ Hin Ek).
+        destruct (is_string o) eqn:Es.
+        * destruct (Bool.eqb (e_pre e) (is_preparse o)); cbn [negb st_sto]; [|apply Hfin].
+          rewrite slot_upd_put by lia. cbn [bind]. unfold set_sto. cbn [st_i st_argv st_sto st_bad st_helps st_nbad]. apply Hfin.
+        * destruct (is_integer o) eqn:Ei; [|discriminate].
+          destruct (Bool.eqb (e_pre e) (is_preparse o)); cbn [negb st_sto]; [|apply Hfin].
+          rewrite slot_upd_put by lia. cbn [bind]. unfold set_sto. cbn [st_i st_argv st_sto st_bad st_helps st_nbad]. apply Hfin.
+      + repeat (apply andb_true_iff in Hk; destruct Hk as [Hk ?]).
+        apply negb_true_iff in Hk. destruct (needs_value_false_kinds _ Hk) as (Hq1 & Hq2 & Hq3).
+        rewrite Hq1, Hq2, Hq3. match goal with H : is_abstract o = true |- _ => rewrite H end.
+        destruct (o_slot o) as [k|] eqn:Ek; [|discriminate].
+        destruct (Bool.eqb (e_pre e) (is_preparse o)); cbn [negb st_sto]; [|apply Hfin].
+        unfold set_sto. cbn [st_i st_argv st_sto st_bad st_helps st_nbad]. apply Hfin.
+    - (* boolean with a boolean word *)
+      unfold bool_kind in Hk. repeat (apply andb_true_iff in Hk; destruct Hk as [Hk ?]).
+      rewrite Hk. subst islong. unfold handle_boolean, should_parse. cbn [st_sto].
+      destruct (o_slot o) as [k|] eqn:Ek; [|exfalso; eapply Hbool; eauto]. pose proof (Hslot _ _ Hin Ek).
+      destruct (is_boolean_value_cases _ Hbv) as [Ht|Hf].
+      * rewrite Ht. destruct (Bool.eqb (e_pre e) (is_preparse o)); cbn [negb bind]; [|apply Hfin].
+        rewrite slot_upd_put by lia. cbn [bind]. unfold set_sto. cbn [st_i st_argv st_sto st_bad st_helps st_nbad]. apply Hfin.
+      * rewrite Hf. destruct (istrue vs).
+        -- destruct (Bool.eqb (e_pre e) (is_preparse o)); cbn [negb bind]; [|apply Hfin].
+           rewrite slot_upd_put by lia. cbn [bind]. unfold set_sto. cbn [st_i st_argv st_sto st_bad st_helps st_nbad]. apply Hfin.
+        -- destruct (Bool.eqb (e_pre e) (is_preparse o)); cbn [negb bind]; [|apply Hfin].
+           rewrite slot_upd_put by lia. cbn [bind]. unfold set_sto. cbn [st_i st_argv st_sto st_bad st_helps st_nbad]. apply Hfin.
+    - (* --list=VALUE *)
+      unfold list_kind in Hk. repeat (apply andb_true_iff in Hk; destruct Hk as [Hk ?]).
+      apply negb_true_iff in Hk. repeat match goal with H : negb _ = true |- _ => apply negb_true_iff in H end.
+      rewrite Hk. match goal with H : is_string o = false |- _ => rewrite H end.
+      match goal with H : is_integer o = false |- _ => rewrite H end.
+      match goal with H : is_arglist o = true |- _ => rewrite H end.
+      subst hasequal.
+      destruct (o_slot o) as [k|] eqn:Ek; [|discriminate]. pose proof (Hslot _ _ Hin Ek).
+      destruct (Bool.eqb (e_pre e) (is_preparse o)); cbn [negb bind]; [|apply Hfin].
+      unfold handle_arglist. rewrite (arglist_words_eq _ _ _ Hvs). cbn [bind st_sto]. rewrite Ek.
+      rewrite slot_upd_put by lia. cbn [bind]. unfold set_sto. cbn [st_i st_argv st_sto st_bad st_helps st_nbad]. apply Hfin.
+  Qed.
+  Lemma keeps_needs o vs islong hasequal :
+    keeps_value o vs islong hasequal ->
+    (if needs_value o then is_some (o_slot o) else negb (is_abstract o && negb (is_some (o_slot o)))) = true.
+  Proof.
+    intros [Hk|[(Hk & _)|Hk]].
+    - unfold value_kind in Hk. apply andb_true_iff in Hk. destruct Hk as [_ Hk].
+      apply orb_true_iff in Hk. destruct Hk as [Hk|Hk]; repeat (apply andb_true_iff in Hk; destruct Hk as [Hk ?]).
+      + now rewrite Hk.
+      + apply negb_true_iff in Hk. rewrite Hk. match goal with H : is_some _ = true |- _ => rewrite H end.
+        now rewrite andb_false_r.
+    - unfold bool_kind in Hk. repeat (apply andb_true_iff in Hk; destruct Hk as [Hk ?]).
+      repeat match goal with H : negb _ = true |- _ => apply negb_true_iff in H end.
+      match goal with H : needs_value o = false |- _ => rewrite H end.
+      match goal with H : is_abstract o = false |- _ => rewrite H end. reflexivity.
+    - unfold list_kind in Hk. repeat (apply andb_true_iff in Hk; destruct Hk as [Hk ?]).
+      match goal with H : is_arglist o = true |- _ => rewrite (arglist_needs_value _ H) end. assumption.
+  Qed.
+
+  (* the filter "Boolean options may or may not have a value..." lets such a value through *)
+  Lemma filter_keep s p o nxt islong hasequal v vs :
+    keeps_value o vs islong hasequal ->
+    (if is_boolean o && (negb islong || negb (is_boolean_value vs))
+     then with_value e rec s p o nxt islong hasequal None
+     else if is_abstract o
+          then is_valid_option e vs s (fun valid s => with_value e rec s p o nxt islong hasequal (if valid then None else Some v))
+          else if negb (needs_value o) && negb (is_boolean o)
+               then with_value e rec s p o nxt islong hasequal None
+               else with_value e rec s p o nxt islong hasequal (Some v)) =
+    with_value e rec s p o nxt islong hasequal (Some v).
+  Proof.
+    intros [Hk|[(Hk & Hl & Hbv)|Hk]].
+    - unfold value_kind in Hk. apply andb_true_iff in Hk. destruct Hk as [Hb Hk]. apply negb_true_iff in Hb.
+      rewrite Hb. cbn [andb]. apply orb_true_iff in Hk.
+      destruct Hk as [Hk|Hk]; repeat (apply andb_true_iff in Hk; destruct Hk as [Hk ?]).
+      + repeat match goal with H : negb _ = true |- _ => apply negb_true_iff in H end.
+        match goal with H : is_abstract o = false |- _ => rewrite H end. rewrite Hk. reflexivity.
+      + match goal with H : is_abstract o = true |- _ => rewrite H end.
+        match goal with H : negb (hd 0%Z vs =? 45)%Z = true |- _ => apply negb_true_iff in H; rename H into Hhd end.
+        unfold is_valid_option. destruct vs as [|c t]; [reflexivity|]. simpl in Hhd. now rewrite Hhd.
+    - unfold bool_kind in Hk. repeat (apply andb_true_iff in Hk; destruct Hk as [Hk ?]).
+      repeat match goal with H : negb _ = true |- _ => apply negb_true_iff in H end.
+      rewrite Hk, Hl, Hbv. cbn [negb orb andb].
+      match goal with H : is_abstract o = false |- _ => rewrite H end. now rewrite andb_false_r.
+    - unfold list_kind in Hk. repeat (apply andb_true_iff in Hk; destruct Hk as [Hk ?]).
+      repeat match goal with H : negb _ = true |- _ => apply negb_true_iff in H end.
+      rewrite Hk. cbn [andb]. match goal with H : is_abstract o = false |- _ => rewrite H end.
+      match goal with H : is_arglist o = true |- _ => rewrite (arglist_needs_value _ H) end. reflexivity.
+  Qed.
+
+  (* an option with a value, from the lookup result on: -xV, -x V, --l=V, --l V *)
+  Lemma after_find_value sa sto sbad shelps snbad i off j o islong nxt hasequal v vs restp a2 :
+    nth_error (e_tbl e) j = Some o -> i < length sa -> nxt_ok sa i nxt ->
+    find_value e (i, off) nxt islong = Ok (Some v, hasequal) ->
+    cstr_at e v = Ok vs -> cstr_at e (i, off) = Ok restp ->
+    keeps_value o vs islong hasequal -> (list_kind o = true -> hasequal = true) -> wf_store n sto ->
+    (Some v = arg_ptr nxt -> nth_error sa (S (S i)) = Some a2) ->
+    after_find e rec (mkst i sa sto sbad shelps snbad) (i, off) j islong =
+    if optptr_eqb (Some v) (arg_ptr nxt)
+    then rec (mkst (S (S i)) (clr (clr sa i) (S i)) (assign (e_pre e) o (AVal vs) sto) sbad shelps snbad) (arg_ptr a2)
+    else rec (mkst (S i) (clr sa i) (assign (e_pre e) o (AVal vs) sto) sbad shelps snbad) (arg_ptr nxt).
+  Proof.
+    intros Hnth Hi Hnxt Hfv Hvs Hrest Hk Hle Hwf Ha2.
+    pose proof (nth_error_In _ _ Hnth) as Hin. destruct Hnxt as (Hn1 & Hn2).
+    unfold after_find. rewrite clear_arg_at by (simpl; auto).
+    cbn [bind set_argv st_i st_argv st_sto st_bad st_helps st_nbad].
+    rewrite (argv_get_at _ _ nxt) by (rewrite clr_other by lia; exact Hn1). cbn [bind].
+    rewrite Hfv. cbn [bind]. rewrite (tbl_get_at _ _ Hnth). cbn [bind]. rewrite Hvs. cbn [bind].
+    rewrite (filter_keep _ _ _ _ _ _ _ _ Hk).
+    unfold with_value, consume_value. cbn [is_some andb].
+    pose proof (keeps_needs _ _ _ _ Hk) as Hneeds.
+    destruct (optptr_eqb (Some v) (arg_ptr nxt)) eqn:Eeq.
+    - (* the value is the next argument: consumed *)
+      rewrite Hrest. cbn [bind fst snd set_i st_i st_argv st_sto st_bad st_helps st_nbad].
+      assert (Hv : Some v = arg_ptr nxt).
+      { destruct nxt as [sid|]; simpl in Eeq; [|discriminate]. apply ptr_eqb_true in Eeq. now subst. }
+      assert (HSi : S i < length sa).
+      { destruct Hn2 as [->|(-> & _)]; [discriminate|]. apply nth_error_Some. congruence. }
+      assert (Hd : dispatch e rec (mkst (S i) (clr sa i) sto sbad shelps snbad) (i, off + length restp) o islong hasequal (Some v) =
+                   rec (mkst (S (S i)) (clr (clr sa i) (S i)) (assign (e_pre e) o (AVal vs) sto) sbad shelps snbad) (arg_ptr a2)).
+      { rewrite (dispatch_value _ _ _ _ _ _ _ _ _ _ _ _ Hin Hvs Hk Hle Hwf) by (rewrite clr_length; exact HSi).
+        rewrite (next_arg_at _ a2).
+        - reflexivity.
+        - cbn [st_argv st_i]. rewrite !clr_other by lia. auto. }
+      destruct (needs_value o).
+      + rewrite Hneeds. exact Hd.
+      + apply negb_true_iff in Hneeds. rewrite Hneeds. exact Hd.
+    - cbn [bind].
+      assert (Hd : dispatch e rec (mkst i (clr sa i) sto sbad shelps snbad) (i, off) o islong hasequal (Some v) =
+                   rec (mkst (S i) (clr sa i) (assign (e_pre e) o (AVal vs) sto) sbad shelps snbad) (arg_ptr nxt)).
+      { rewrite (dispatch_value _ _ _ _ _ _ _ _ _ _ _ _ Hin Hvs Hk Hle Hwf) by (rewrite clr_length; exact Hi).
+        rewrite clr_idem. rewrite (next_arg_at _ nxt).
+        - reflexivity.
+        - cbn [st_argv st_i]. rewrite clr_other by lia. exact Hn1. }
+      destruct (needs_value o).
+      + rewrite Hneeds. exact Hd.
+      + apply negb_true_iff in Hneeds. rewrite Hneeds. exact Hd.
+  Qed.
+  (* ---- --flag ---- *)
+  Lemma after_find_flag_long sa sto sbad shelps snbad i off j o nxt name :
+    nth_error (e_tbl e) j = Some o -> flag_kind o = true -> i < length sa -> nxt_ok sa i nxt ->
+    cstr_at e (i, off) = Ok name -> index_eq name = None ->
+    (is_boolean o = true -> forall vs, nxt <> None -> nth_error (e_strs e) (S i) = Some vs -> is_boolean_value vs = false) ->
+    wf_store n sto ->
+    after_find e rec (mkst i sa sto sbad shelps snbad) (i, off) j true =
+    rec (mkst (S i) (clr sa i) (assign (e_pre e) o AFlag sto) sbad shelps snbad) (arg_ptr nxt).
+  Proof.
+    intros Hnth Hkind Hi Hnxt Hname Hidx Hnb Hwf.
+    pose proof (nth_error_In _ _ Hnth) as Hin. destruct Hnxt as (Hn1 & Hn2).
+    unfold flag_kind in Hkind. apply andb_true_iff in Hkind. destruct Hkind as [Hnv Hab].
+    apply negb_true_iff in Hnv. apply negb_true_iff in Hab.
+    unfold after_find. rewrite clear_arg_at by (simpl; auto).
+    cbn [bind set_argv st_i st_argv st_sto st_bad st_helps st_nbad].
+    rewrite (argv_get_at _ _ nxt) by (rewrite clr_other by lia; exact Hn1). cbn [bind].
+    unfold find_value. rewrite Hname. cbn [bind]. rewrite Hidx. cbn [bind].
+    rewrite (tbl_get_at _ _ Hnth). cbn [bind].
+    (* from with_value on *)
+    assert (Hwv : with_value e rec (mkst i (clr sa i) sto sbad shelps snbad) (i, off) o nxt true false None =
+                  rec (mkst (S i) (clr sa i) (assign (e_pre e) o AFlag sto) sbad shelps snbad) (arg_ptr nxt)).
+    { unfold with_value, consume_value. cbn [is_some andb bind].
+      rewrite Hnv, Hab. cbn [andb]. unfold dispatch. cbn [bind].
+      destruct (is_boolean o) eqn:Eb.
+      - cbn [st_sto].
+        assert (Hhb : handle_boolean e o sto None true = Ok (assign (e_pre e) o AFlag sto, true)).
+        { pose proof (handle_boolean_flag o sto None Hin Eb Hnv Hwf) as H. unfold handle_boolean in *. exact H. }
+        rewrite Hhb. cbn [bind]. unfold set_sto. cbn [st_i st_argv st_sto st_bad st_helps st_nbad].
+        rewrite clear_arg_at by (simpl; rewrite clr_length; auto).
+        cbn [bind set_argv st_i st_argv st_sto st_bad st_helps st_nbad]. rewrite clr_idem.
+        unfold next_loop. cbn [orb]. rewrite (next_arg_at _ nxt); [reflexivity|].
+        cbn [set_argv st_argv st_i]. rewrite ?clr_idem, clr_other by lia. exact Hn1.
+      - destruct (needs_value_false_kinds _ Hnv) as (Hq1 & Hq2 & Hq3). rewrite Hq1, Hq2, Hq3, Hab.
+        rewrite clear_arg_at by (simpl; rewrite clr_length; auto).
+        cbn [bind set_argv st_i st_argv st_sto st_bad st_helps st_nbad]. rewrite clr_idem.
+        rewrite (assign_none _ _ _ _ Eb Hnv Hab). unfold next_loop. cbn [orb].
+        rewrite (next_arg_at _ nxt); [reflexivity|].
+        cbn [set_argv st_argv st_i]. rewrite ?clr_idem, clr_other by lia. exact Hn1. }
+    destruct (arg_ptr nxt) as [v|] eqn:Ev; [|exact Hwv].
+    destruct (nxt_cstr _ _ _ _ (conj Hn1 Hn2) Ev) as (vs & Hvs & Hstr & _). rewrite Hvs. cbn [bind].
+    destruct (is_boolean o) eqn:Eb.
+    - assert (Hbv : is_boolean_value vs = false).
+      { apply (Hnb eq_refl vs); auto. intros ->. discriminate. }
+      rewrite Hbv. cbn [negb orb andb]. exact Hwv.
+    - cbn [andb]. rewrite Hab, Hnv. cbn [negb andb]. exact Hwv.
+  Qed.
+
+  (* ---- the head of a round ---- *)
+  Lemma step_start s i c1 rest :
+    st_i s = i -> i < e_argc e -> nth_error (st_argv s) i = Some (Some i) ->
+    nth_error (e_strs e) i = Some (45%Z :: c1 :: rest) ->
+    step e rec s (Some (i, 0)) = lookup e rec s (i, 1).
+  Proof.
+    intros Hi Hlt Ha Hstr. unfold step. rewrite Hi.
+    apply Nat.ltb_lt in Hlt. rewrite Hlt. cbn [negb].
+    rewrite (argv_get_at _ _ _ Ha). cbn [bind]. unfold optptr_eqb, arg_ptr, option_map, ptr_eqb.
+    cbn [fst snd]. rewrite !Nat.eqb_refl. cbn [andb].
+    rewrite (getc_at _ _ 0 Hstr) by (simpl; lia). cbn [bind nth]. cbn [Z.eqb Pos.eqb negb].
+    rewrite (getc_at _ _ 1 Hstr) by (simpl; lia). cbn [bind nth fst snd].
+    assert (Hc1 : (c1 =? 0)%Z = false) by (apply (nth_nz _ _ 1 Hstr); simpl; lia).
+    rewrite Hc1. reflexivity.
+  Qed.
+
+  Lemma step_mid s i k a :
+    st_i s = i -> i < e_argc e -> nth_error (st_argv s) i = Some a -> 1 <= k ->
+    step e rec s (Some (i, k)) = lookup e rec s (i, k).
+  Proof.
+    intros Hi Hlt Ha Hk. unfold step. rewrite Hi.
+    apply Nat.ltb_lt in Hlt. rewrite Hlt. cbn [negb].
+    rewrite (argv_get_at _ _ _ Ha). cbn [bind].
+    destruct a as [sid|]; [|reflexivity].
+    unfold optptr_eqb, arg_ptr, option_map, ptr_eqb. cbn [fst snd].
+    destruct k; [lia|]. cbn [Nat.eqb]. now rewrite andb_false_r.
+  Qed.
+
+  (* a non-option word (or a lone hyphen) is skipped *)
+  Lemma step_word s i w a :
+    st_i s = i -> i < e_argc e -> nth_error (st_argv s) i = Some (Some i) ->
+    nth_error (e_strs e) i = Some w ->
+    (negb (hd 0 w =? 45)%Z || match w with [_] => true | _ => false end) = true ->
+    nth_error (st_argv s) (S i) = Some a ->
+    step e rec s (Some (i, 0)) = rec (set_i s (S i)) (arg_ptr a).
+  Proof.
+    intros Hi Hlt Ha Hstr Hw Hnx. unfold step. rewrite Hi.
+    apply Nat.ltb_lt in Hlt. rewrite Hlt. cbn [negb].
+    rewrite (argv_get_at _ _ _ Ha). cbn [bind]. unfold optptr_eqb, arg_ptr at 1, option_map, ptr_eqb.
+    cbn [fst snd]. rewrite !Nat.eqb_refl. cbn [andb].
+    rewrite (getc_at _ _ 0 Hstr) by lia. cbn [bind].
+    assert (Hna : next_arg rec s = rec (set_i s (S i)) (arg_ptr a)).
+    { rewrite <- Hi. apply next_arg_at. now rewrite Hi. }
+    destruct w as [|c t].
+    - cbn [nth]. cbn [Z.eqb negb]. exact Hna.
+    - cbn [nth hd] in *. destruct (Z.eqb c 45) eqn:Ec; cbn [negb]; [|exact Hna].
+      cbn [negb orb] in Hw. destruct t as [|c2 t2]; [|discriminate].
+      rewrite (getc_at _ _ 1 Hstr) by (simpl; lia). cbn [bind nth fst snd Z.eqb]. exact Hna.
+  Qed.
+
+  (* ---- an argument list that takes the rest of the line ---- *)
+  Fixpoint nulls_from (a : list (option nat)) (k cnt : nat) : list (option nat) :=
+    match cnt with O => a | S c => nulls_from (upd a k None) (S k) c end.
+  Lemma clear_from_eq a k cnt : k + cnt <= length a -> clear_from a k cnt = Ok (nulls_from a k cnt).
+  Proof.
+    revert a k; induction cnt as [|c IH]; intros a k H; simpl; [reflexivity|].
+    unfold argv_set. assert (Hk : k <? length a = true) by (apply Nat.ltb_lt; lia). rewrite Hk. cbn [bind].
+    apply IH. rewrite upd_length. lia.
+  Qed.
+
+  Lemma map_res_eq {A B} (f : A -> res B) (g : A -> B) l :
+    (forall x, In x l -> f x = Ok (g x)) -> map_res f l = Ok (map g l).
+  Proof.
+    induction l as [|x t IH]; intros H; simpl; [reflexivity|].
+    rewrite (H x (or_introl eq_refl)). cbn [bind]. rewrite IH by (intros; apply H; now right). reflexivity.
+  Qed.
+
+  Lemma map_nth_seq {A} (l : list A) m d :
+    map (fun k => nth (k + m) l d) (seq 0 (length l - m)) = skipn m l.
+  Proof.
+    revert m; induction l as [|x t IH]; intros m.
+    - simpl. now rewrite skipn_nil.
+    - destruct m as [|m].
+      + rewrite skipn_O. simpl length. rewrite Nat.sub_0_r. cbn [seq map]. rewrite Nat.add_0_r at 1. cbn [nth]. f_equal.
+        rewrite <- seq_shift, map_map. specialize (IH 0). rewrite Nat.sub_0_r, skipn_O in IH.
+        rewrite <- IH at 2. apply map_ext. intros k. now rewrite !Nat.add_0_r.
+      + rewrite skipn_cons. simpl length. rewrite Nat.sub_succ. rewrite <- (IH m).
+        apply map_ext. intros k. now rewrite Nat.add_succ_r.
+  Qed.
+
+  Lemma after_find_rest sa sto sbad shelps snbad i off j o islong restp :
+    nth_error (e_tbl e) j = Some o -> list_kind o = true -> S i < e_argc e -> length sa = S (e_argc e) ->
+    (forall k, i < k < e_argc e -> nth_error sa k = Some (Some k)) ->
+    find_value e (i, off) (Some (S i)) islong = Ok (Some (S i, 0), false) ->
+    cstr_at e (i, off) = Ok restp -> wf_store n sto ->
+    after_find e rec (mkst i sa sto sbad shelps snbad) (i, off) j islong =
+    Ok (Done (e_pre e)
+             (mkst (S i) (if rm_active e then nulls_from (clr sa i) (S i) (e_argc e - S i) else clr sa i)
+                   (assign (e_pre e) o (ARest (skipn (S i) (e_strs e))) sto) sbad shelps snbad)).
+  Proof.
+    intros Hnth Hk Hlt Hlen Hsa Hfv Hrest Hwf.
+    pose proof (nth_error_In _ _ Hnth) as Hin. destruct Hwt as [Hslot Hbool].
+    assert (Hs1 : exists s1, nth_error (e_strs e) (S i) = Some s1).
+    { destruct (nth_error (e_strs e) (S i)) eqn:E; eauto. apply nth_error_None in E. lia. }
+    destruct Hs1 as (s1 & Hs1).
+    assert (Hkv : keeps_value o s1 islong false) by (right; right; exact Hk).
+    unfold after_find. rewrite clear_arg_at by (simpl; lia).
+    cbn [bind set_argv st_i st_argv st_sto st_bad st_helps st_nbad].
+    rewrite (argv_get_at _ _ (Some (S i))) by (rewrite clr_other by lia; apply Hsa; lia). cbn [bind].
+    rewrite Hfv. cbn [bind]. rewrite (tbl_get_at _ _ Hnth). cbn [bind].
+    rewrite (cstr_at_at _ _ 0 Hs1) by lia. cbn [bind]. rewrite skipn_O.
+    rewrite (filter_keep _ _ _ _ _ _ _ _ Hkv).
+    unfold with_value, consume_value. cbn [is_some andb optptr_eqb arg_ptr option_map].
+    unfold ptr_eqb. cbn [fst snd]. rewrite !Nat.eqb_refl. cbn [andb].
+    rewrite Hrest. cbn [bind fst snd set_i st_i st_argv st_sto st_bad st_helps st_nbad].
+    pose proof (keeps_needs _ _ _ _ Hkv) as Hneeds.
+    unfold list_kind in Hk. repeat (apply andb_true_iff in Hk; destruct Hk as [Hk ?]).
+    repeat match goal with H : negb _ = true |- _ => apply negb_true_iff in H end.
+    match goal with H : is_arglist o = true |- _ => rename H into Hal end.
+    match goal with H : is_string o = false |- _ => rename H into Hst end.
+    match goal with H : is_integer o = false |- _ => rename H into Hin' end.
+    rewrite (arglist_needs_value _ Hal) in *. rewrite Hneeds.
+    destruct (o_slot o) as [k|] eqn:Ek; [|discriminate]. pose proof (Hslot _ _ Hin Ek) as Hkn.
+    unfold dispatch. rewrite (cstr_at_at _ _ 0 Hs1) by lia. cbn [bind]. rewrite Hk, Hst, Hin', Hal.
+    unfold assign, kind_of, should_parse. rewrite Hk, Hst, Hin', Hal.
+    assert (Hfin : forall sto', (a <- (if rm_active e
+                       then clear_from (st_argv (mkst (S i) (clr sa i) sto' sbad shelps snbad))
+                                       (st_i (mkst (S i) (clr sa i) sto' sbad shelps snbad))
+                                       (e_argc e - st_i (mkst (S i) (clr sa i) sto' sbad shelps snbad))
+                       else Ok (st_argv (mkst (S i) (clr sa i) sto' sbad shelps snbad)));;
+                  Ok (Done (e_pre e) (set_argv (mkst (S i) (clr sa i) sto' sbad shelps snbad) a))) =
+             Ok (Done (e_pre e) (mkst (S i) (if rm_active e then nulls_from (clr sa i) (S i) (e_argc e - S i) else clr sa i)
+                                      sto' sbad shelps snbad))).
+    { intros sto'. cbn [st_i st_argv]. destruct (rm_active e) eqn:Erm.
+      - rewrite clear_from_eq by (rewrite clr_length; lia). reflexivity.
+      - reflexivity. }
+    cbn [set_sto set_i set_argv st_i st_argv st_sto st_bad st_helps st_nbad].
+    destruct (Bool.eqb (e_pre e) (is_preparse o)); cbn [negb bind].
+    2:{ apply Hfin. }
+    unfold handle_arglist, arglist_words. cbn [set_i set_argv st_i st_argv st_sto st_bad st_helps st_nbad].
+    rewrite (map_res_eq _ (fun k => Some (nth (k + S i) (e_strs e) []))).
+    - cbn [bind]. unfold fill_array. rewrite map_length, seq_length, Nat.leb_refl. cbn [bind].
+      rewrite Ek. destruct Hwf as (W1 & W2 & W3 & W4). rewrite slot_upd_put by lia. cbn [bind].
+      unfold set_sto. cbn [set_i set_argv st_i st_argv st_sto st_bad st_helps st_nbad].
+      replace (map (fun k0 : nat => Some (nth (k0 + S i) (e_strs e) [])) (seq 0 (e_argc e - S i)))
+        with (map Some (skipn (S i) (e_strs e))).
+      + apply Hfin.
+      + rewrite Hargc, <- (map_nth_seq (e_strs e) (S i) []), map_map. reflexivity.
+    - intros k0 Hk0. apply in_seq in Hk0. destruct k0 as [|k0].
+      + rewrite (cstr_at_at _ _ 0 Hs1) by lia. cbn [bind]. rewrite skipn_O. simpl.
+        now rewrite (nth_error_nth _ _ _ Hs1).
+      + rewrite (argv_get_at _ _ (Some (S k0 + S i))) by (rewrite clr_other by lia; apply Hsa; lia).
+        cbn [bind].
+        assert (Hs2 : exists s2, nth_error (e_strs e) (S k0 + S i) = Some s2).
+        { destruct (nth_error (e_strs e) (S k0 + S i)) eqn:E; eauto. apply nth_error_None in E. lia. }
+        destruct Hs2 as (s2 & Hs2). rewrite (cstr_at_at _ _ 0 Hs2) by lia. cbn [bind]. rewrite skipn_O.
+        now rewrite (nth_error_nth _ _ _ Hs2).
+  Qed.
+  (* ---- from the lookup to after_find ---- *)
+  Lemma lookup_short s i str k x j :
+    nth_error (e_strs e) i = Some str -> nth_error str k = Some x -> (x =? 45)%Z = false ->
+    find_short (e_tbl e) x = Some j ->
+    lookup e rec s (i, k) = after_find e rec s (i, k) j false.
+  Proof.
+    intros Hstr Hx H45 Hj. assert (Hk : k < length str) by (apply nth_error_Some; congruence).
+    unfold lookup. rewrite (getc_at _ _ _ Hstr) by lia. rewrite (nth_error_nth _ _ _ Hx). cbn [bind].
+    now rewrite H45, Hj.
+  Qed.
+
+  Lemma lookup_long s i str k j :
+    nth_error (e_strs e) i = Some str -> nth_error str k = Some 45%Z ->
+    find_long (e_tbl e) (skipn (S k) str) = Some j ->
+    lookup e rec s (i, k) = after_find e rec s (i, S k) j true.
+  Proof.
+    intros Hstr Hx Hj. assert (Hk : k < length str) by (apply nth_error_Some; congruence).
+    unfold lookup. rewrite (getc_at _ _ _ Hstr) by lia. rewrite (nth_error_nth _ _ _ Hx). cbn [bind Z.eqb Pos.eqb fst snd].
+    rewrite (cstr_at_at _ _ _ Hstr) by lia. cbn [bind]. now rewrite Hj.
+  Qed.
+
+  (* ---- the part of argv the parser has not reached yet ---- *)
+  Definition ahead (sa : list (option nat)) (i : nat) : Prop :=
+    length sa = S (e_argc e) /\ nth_error sa (e_argc e) = Some None /\
+    forall k, i <= k < e_argc e -> nth_error sa k = Some (Some k).
+  Definition cur_at (k : nat) : option ptr := if k <? e_argc e then Some (k, 0) else None.
+
+  Lemma ahead_nth sa i k : ahead sa i -> i <= k <= e_argc e ->
+    nth_error sa k = Some (if k <? e_argc e then Some k else None).
+  Proof.
+    intros (Hl & Hlast & Hk) Hr. destruct (k <? e_argc e) eqn:E.
+    - apply Nat.ltb_lt in E. apply Hk. lia.
+    - apply Nat.ltb_ge in E. assert (k = e_argc e) by lia. subst. exact Hlast.
+  Qed.
+  Lemma arg_ptr_cur k : arg_ptr (if k <? e_argc e then Some k else None) = cur_at k.
+  Proof. unfold cur_at. destruct (k <? e_argc e); reflexivity. Qed.
+
+  Lemma ahead_nxt sa i : ahead sa i -> i < e_argc e ->
+    nxt_ok sa i (if S i <? e_argc e then Some (S i) else None).
+  Proof.
+    intros Ha Hi. split; [apply (ahead_nth _ i); auto; lia|].
+    destruct (S i <? e_argc e) eqn:E; [right|left; reflexivity]. split; auto.
+    apply Nat.ltb_lt in E. destruct (nth_error (e_strs e) (S i)) eqn:En; eauto.
+    apply nth_error_None in En. lia.
+  Qed.
+
+  Lemma ahead_clr sa i k : ahead sa i -> k < i -> i <= e_argc e -> ahead (clr sa k) i.
+  Proof.
+    intros (Hl & Hlast & Hk) Hlt Hle. repeat split.
+    - now rewrite clr_length.
+    - rewrite clr_other by lia. auto.
+    - intros m Hm. rewrite clr_other by lia. now apply Hk.
+  Qed.
+  Lemma ahead_mono sa i k : ahead sa i -> i <= k -> ahead sa k.
+  Proof. intros (Hl & Hlast & Hk) Hle. repeat split; auto. intros m Hm. apply Hk. lia. Qed.
+
+  (* ---- one spelling, from the head of its round to the head of the next spelling's round ---- *)
+  Lemma run_word sa sto sbad shelps snbad i w :
+    ahead sa i -> i < e_argc e -> nth_error (e_strs e) i = Some w ->
+    (negb (hd 0 w =? 45)%Z || match w with [_] => true | _ => false end) = true ->
+    step e rec (mkst i sa sto sbad shelps snbad) (Some (i, 0)) = rec (mkst (S i) sa sto sbad shelps snbad) (cur_at (S i)).
+  Proof.
+    intros Ha Hi Hstr Hw. rewrite <- arg_ptr_cur.
+    rewrite (step_word _ i w (if S i <? e_argc e then Some (S i) else None)); auto.
+    - cbn [st_argv]. rewrite (ahead_nth _ i i Ha) by lia. apply Nat.ltb_lt in Hi. now rewrite Hi.
+    - cbn [st_argv]. apply (ahead_nth _ i); auto; lia.
+  Qed.
+
+  Lemma run_attached sa sto sbad shelps snbad i x v o :
+    ahead sa i -> i < e_argc e -> nth_error (e_strs e) i = Some (45%Z :: x :: v) -> v <> [] ->
+    letter_ok_b x = true -> find_opt (e_tbl e) (ByShort x) = Some o -> value_kind o v = true -> wf_store n sto ->
+    step e rec (mkst i sa sto sbad shelps snbad) (Some (i, 0)) =
+    rec (mkst (S i) (clr sa i) (assign (e_pre e) o (AVal v) sto) sbad shelps snbad) (cur_at (S i)).
+  Proof.
+    intros Ha Hi Hstr Hv Hlet Hfind Hkind Hwf.
+    unfold letter_ok_b in Hlet. apply andb_true_iff in Hlet. destruct Hlet as [_ H45]. apply negb_true_iff in H45.
+    destruct (find_short_spec _ _ _ Hfind) as (j & Hj & Hnth).
+    pose proof (ahead_nxt _ _ Ha Hi) as Hnxt. set (nxt := if S i <? e_argc e then Some (S i) else None) in *.
+    rewrite (step_start _ i x v); auto.
+    2:{ cbn [st_argv]. rewrite (ahead_nth _ i i Ha) by lia. apply Nat.ltb_lt in Hi. now rewrite Hi. }
+    rewrite (lookup_short _ _ _ 1 x j Hstr); auto.
+    rewrite (after_find_value _ _ _ _ _ _ _ _ o false nxt false (i, 2) v (x :: v) None Hnth); auto.
+    - match goal with |- context [optptr_eqb ?a ?b] => assert (Hne : optptr_eqb a b = false) end.
+      { destruct nxt; simpl; auto. unfold ptr_eqb. simpl. now rewrite andb_false_r. }
+      rewrite Hne. unfold nxt. now rewrite arg_ptr_cur.
+    - destruct Ha as (Hl & _). lia.
+    - unfold find_value. cbn [fst snd]. rewrite (getc_at _ _ 2 Hstr) by (simpl; lia). cbn [bind nth].
+      destruct v as [|c t]; [congruence|]. cbn [nth].
+      assert (Hc : (c =? 0)%Z = false) by (apply (nth_nz _ _ 2 Hstr); simpl; lia). now rewrite Hc.
+    - rewrite (cstr_at_at _ _ 2 Hstr) by (simpl; lia). reflexivity.
+    - rewrite (cstr_at_at _ _ 1 Hstr) by (simpl; lia). reflexivity.
+    - left; auto.
+    - intros Hl. exfalso. unfold value_kind in Hkind. unfold list_kind in Hl.
+      repeat (apply andb_true_iff in Hl; destruct Hl as [Hl ?]).
+      repeat match goal with H : negb _ = true |- _ => apply negb_true_iff in H end.
+      apply andb_true_iff in Hkind. destruct Hkind as [_ Hkind]. apply orb_true_iff in Hkind.
+      destruct Hkind as [Hkind|Hkind]; repeat (apply andb_true_iff in Hkind; destruct Hkind as [Hkind ?]).
+      + match goal with H : is_string o || is_integer o = true |- _ => apply orb_true_iff in H; destruct H; congruence end.
+      + congruence.
+    - intros Hc. exfalso. destruct nxt; simpl in Hc; [|discriminate]. inversion Hc.
+  Qed.
+  Lemma value_not_list o v : value_kind o v = true -> list_kind o = true -> False.
+  Proof.
+    intros Hkind Hl. unfold value_kind in Hkind. unfold list_kind in Hl.
+    repeat (apply andb_true_iff in Hl; destruct Hl as [Hl ?]).
+    repeat match goal with H : negb _ = true |- _ => apply negb_true_iff in H end.
+    apply andb_true_iff in Hkind. destruct Hkind as [_ Hkind]. apply orb_true_iff in Hkind.
+    destruct Hkind as [Hkind|Hkind]; repeat (apply andb_true_iff in Hkind; destruct Hkind as [Hkind ?]).
+    - match goal with H : is_string o || is_integer o = true |- _ => apply orb_true_iff in H; destruct H; congruence end.
+    - congruence.
+  Qed.
+  Lemma bool_not_list o : bool_kind o = true -> list_kind o = true -> False.
+  Proof.
+    intros Hb Hl. unfold bool_kind in Hb. unfold list_kind in Hl.
+    repeat (apply andb_true_iff in Hl; destruct Hl as [Hl ?]).
+    repeat (apply andb_true_iff in Hb; destruct Hb as [Hb ?]).
+    apply negb_true_iff in Hl. congruence.
+  Qed.
+
+  Lemma ahead_i sa i : ahead sa i -> i < e_argc e -> nth_error sa i = Some (Some i) /\ i < length sa.
+  Proof.
+    intros Ha Hi. pose proof (ahead_nth _ i i Ha ltac:(lia)) as H. apply Nat.ltb_lt in Hi. rewrite Hi in H.
+    split; auto. apply nth_error_Some. congruence.
+  Qed.
+
+  Lemma skipn_app_exact {A} (l r : list A) : skipn (length l) (l ++ r) = r.
+  Proof. rewrite skipn_app, Nat.sub_diag, skipn_all, skipn_O. reflexivity. Qed.
+
+  (* -x VALUE *)
+  Lemma run_sep sa sto sbad shelps snbad i x v o :
+    ahead sa i -> S i < e_argc e -> nth_error (e_strs e) i = Some [45%Z; x] -> nth_error (e_strs e) (S i) = Some v ->
+    letter_ok_b x = true -> find_opt (e_tbl e) (ByShort x) = Some o -> value_kind o v = true -> wf_store n sto ->
+    step e rec (mkst i sa sto sbad shelps snbad) (Some (i, 0)) =
+    rec (mkst (S (S i)) (clr (clr sa i) (S i)) (assign (e_pre e) o (AVal v) sto) sbad shelps snbad) (cur_at (S (S i))).
+  Proof.
+    intros Ha HSi Hstr Hstr1 Hlet Hfind Hkind Hwf. assert (Hi : i < e_argc e) by lia.
+    unfold letter_ok_b in Hlet. apply andb_true_iff in Hlet. destruct Hlet as [_ H45]. apply negb_true_iff in H45.
+    destruct (find_short_spec _ _ _ Hfind) as (j & Hj & Hnth).
+    pose proof (ahead_nxt _ _ Ha Hi) as Hnxt. destruct (ahead_i _ _ Ha Hi) as (Hai & Hil).
+    assert (HSi' : (S i <? e_argc e) = true) by now apply Nat.ltb_lt. rewrite HSi' in Hnxt.
+    rewrite (step_start _ i x []); auto.
+    rewrite (lookup_short _ _ _ 1 x j Hstr); auto.
+    rewrite (after_find_value _ _ _ _ _ _ _ _ o false (Some (S i)) false (S i, 0) v [x]
+                              (if S (S i) <? e_argc e then Some (S (S i)) else None) Hnth); auto.
+    - cbn [optptr_eqb arg_ptr option_map]. unfold ptr_eqb. cbn [fst snd]. rewrite !Nat.eqb_refl. cbn [andb].
+      now rewrite arg_ptr_cur.
+    - unfold find_value. cbn [fst snd]. rewrite (getc_at _ _ 2 Hstr) by (simpl; lia). reflexivity.
+    - rewrite (cstr_at_at _ _ 0 Hstr1) by lia. reflexivity.
+    - rewrite (cstr_at_at _ _ 1 Hstr) by (simpl; lia). reflexivity.
+    - left; auto.
+    - intros Hl. exfalso. eapply value_not_list; eauto.
+    - intros _. apply (ahead_nth _ i); auto; lia.
+  Qed.
+
+  (* --long=VALUE *)
+  Lemma run_longeq sa sto sbad shelps snbad i l v o :
+    ahead sa i -> i < e_argc e -> nth_error (e_strs e) i = Some (45%Z :: 45%Z :: l ++ 61%Z :: v) ->
+    name_ok l = true -> find_opt (e_tbl e) (ByLong l) = Some o -> keeps_value o v true true -> wf_store n sto ->
+    step e rec (mkst i sa sto sbad shelps snbad) (Some (i, 0)) =
+    rec (mkst (S i) (clr sa i) (assign (e_pre e) o (AVal v) sto) sbad shelps snbad) (cur_at (S i)).
+  Proof.
+    intros Ha Hi Hstr Hl Hfind Hkind Hwf.
+    destruct (find_long_spec _ l (61%Z :: v) _ Hnames Hl ltac:(right; eauto) Hfind) as (j & Hj & Hnth).
+    pose proof (ahead_nxt _ _ Ha Hi) as Hnxt. destruct (ahead_i _ _ Ha Hi) as (Hai & Hil).
+    set (nxt := if S i <? e_argc e then Some (S i) else None) in *.
+    unfold name_ok in Hl. apply andb_true_iff in Hl. destruct Hl as [_ Hnoeq].
+    rewrite (step_start _ i 45%Z (l ++ 61%Z :: v)); auto.
+    rewrite (lookup_long _ _ _ 1 j Hstr); auto.
+    rewrite (after_find_value _ _ _ _ _ _ _ _ o true nxt true (i, 2 + length l + 1) v (l ++ 61%Z :: v) None Hnth); auto.
+    - match goal with |- context [optptr_eqb ?a ?b] => assert (Hne : optptr_eqb a b = false) end.
+      { destruct nxt; simpl; auto. unfold ptr_eqb. cbn [fst snd]. cbn [Nat.eqb]. apply andb_false_r. }
+      rewrite Hne. unfold nxt. now rewrite arg_ptr_cur.
+    - unfold find_value. rewrite (cstr_at_at _ _ 2 Hstr) by (simpl; lia).
+      cbn [bind]. change (skipn 2 (45%Z :: 45%Z :: l ++ 61%Z :: v)) with (l ++ 61%Z :: v).
+      rewrite (index_eq_app _ _ Hnoeq). reflexivity.
+    - rewrite (cstr_at_at _ _ _ Hstr) by (simpl; rewrite app_length; simpl; lia). f_equal.
+      change (2 + length l + 1) with (S (S (length l + 1))). rewrite !skipn_cons.
+      replace (length l + 1) with (length (l ++ [61%Z])) by (rewrite app_length; simpl; lia).
+      replace (l ++ 61%Z :: v) with ((l ++ [61%Z]) ++ v) by (rewrite <- app_assoc; reflexivity).
+      apply skipn_app_exact.
+    - rewrite (cstr_at_at _ _ 2 Hstr) by (simpl; lia). reflexivity.
+    - intros Hc. exfalso. destruct nxt; simpl in Hc; [|discriminate]. inversion Hc.
+  Qed.
+
+  (* --long VALUE, --long WORD *)
+  Lemma run_longsep sa sto sbad shelps snbad i l v o :
+    ahead sa i -> S i < e_argc e -> nth_error (e_strs e) i = Some (45%Z :: 45%Z :: l) -> nth_error (e_strs e) (S i) = Some v ->
+    name_ok l = true -> find_opt (e_tbl e) (ByLong l) = Some o ->
+    (value_kind o v = true \/ (bool_kind o = true /\ is_boolean_value v = true)) -> wf_store n sto ->
+    step e rec (mkst i sa sto sbad shelps snbad) (Some (i, 0)) =
+    rec (mkst (S (S i)) (clr (clr sa i) (S i)) (assign (e_pre e) o (AVal v) sto) sbad shelps snbad) (cur_at (S (S i))).
+  Proof.
+    intros Ha HSi Hstr Hstr1 Hl Hfind Hkind Hwf. assert (Hi : i < e_argc e) by lia.
+    pose proof (find_long_spec _ l [] _ Hnames Hl ltac:(left; reflexivity) Hfind) as (j & Hj & Hnth).
+    rewrite app_nil_r in Hj.
+    pose proof (ahead_nxt _ _ Ha Hi) as Hnxt. destruct (ahead_i _ _ Ha Hi) as (Hai & Hil).
+    assert (HSi' : (S i <? e_argc e) = true) by now apply Nat.ltb_lt. rewrite HSi' in Hnxt.
+    unfold name_ok in Hl. apply andb_true_iff in Hl. destruct Hl as [Hnzl Hnoeq].
+    assert (Hc1 : exists c1 rest, 45%Z :: l = c1 :: rest) by eauto. destruct Hc1 as (c1 & rest & Hc1).
+    rewrite (step_start _ i 45%Z l); auto.
+    rewrite (lookup_long _ _ _ 1 j Hstr); auto.
+    rewrite (after_find_value _ _ _ _ _ _ _ _ o true (Some (S i)) false (S i, 0) v l
+                              (if S (S i) <? e_argc e then Some (S (S i)) else None) Hnth); auto.
+    - cbn [optptr_eqb arg_ptr option_map]. unfold ptr_eqb. cbn [fst snd]. rewrite !Nat.eqb_refl. cbn [andb].
+      now rewrite arg_ptr_cur.
+    - unfold find_value. rewrite (cstr_at_at _ _ 2 Hstr) by (simpl; lia). cbn [bind].
+      change (skipn 2 (45%Z :: 45%Z :: l)) with l. rewrite (index_eq_none _ Hnoeq). reflexivity.
+    - rewrite (cstr_at_at _ _ 0 Hstr1) by lia. reflexivity.
+    - rewrite (cstr_at_at _ _ 2 Hstr) by (simpl; lia). reflexivity.
+    - destruct Hkind as [Hk|(Hk & Hb)]; [left; auto|right; left; auto].
+    - intros Hlk. exfalso. destruct Hkind as [Hk|(Hk & _)]; [eapply value_not_list|eapply bool_not_list]; eauto.
+    - intros _. apply (ahead_nth _ i); auto; lia.
+  Qed.
+
+  (* --flag *)
+  Lemma run_longflag sa sto sbad shelps snbad i l o :
+    ahead sa i -> i < e_argc e -> nth_error (e_strs e) i = Some (45%Z :: 45%Z :: l) ->
+    name_ok l = true -> find_opt (e_tbl e) (ByLong l) = Some o -> flag_kind o = true ->
+    (is_boolean o = true -> forall vs, nth_error (e_strs e) (S i) = Some vs -> is_boolean_value vs = false) ->
+    wf_store n sto ->
+    step e rec (mkst i sa sto sbad shelps snbad) (Some (i, 0)) =
+    rec (mkst (S i) (clr sa i) (assign (e_pre e) o AFlag sto) sbad shelps snbad) (cur_at (S i)).
+  Proof.
+    intros Ha Hi Hstr Hl Hfind Hkind Hnb Hwf.
+    pose proof (find_long_spec _ l [] _ Hnames Hl ltac:(left; reflexivity) Hfind) as (j & Hj & Hnth).
+    rewrite app_nil_r in Hj.
+    pose proof (ahead_nxt _ _ Ha Hi) as Hnxt. destruct (ahead_i _ _ Ha Hi) as (Hai & Hil).
+    unfold name_ok in Hl. apply andb_true_iff in Hl. destruct Hl as [Hnzl Hnoeq].
+    rewrite (step_start _ i 45%Z l); auto.
+    rewrite (lookup_long _ _ _ 1 j Hstr); auto.
+    rewrite (after_find_flag_long _ _ _ _ _ _ _ _ o (if S i <? e_argc e then Some (S i) else None) l Hnth); auto.
+    - now rewrite arg_ptr_cur.
+    - rewrite (cstr_at_at _ _ 2 Hstr) by (simpl; lia). reflexivity.
+    - now apply index_eq_none.
+  Qed.
+
+  (* -x w1 w2 ... / --long w1 w2 ... to the end of the line *)
+  Lemma run_rest sa sto sbad shelps snbad i r o :
+    ahead sa i -> S i < e_argc e -> nth_error (e_strs e) i = Some (ref_arg r) ->
+    match r with ByShort x => letter_ok_b x | ByLong l => name_ok l end = true ->
+    find_opt (e_tbl e) r = Some o -> list_kind o = true -> wf_store n sto ->
+    step e rec (mkst i sa sto sbad shelps snbad) (Some (i, 0)) =
+    Ok (Done (e_pre e)
+             (mkst (S i) (if rm_active e then nulls_from (clr sa i) (S i) (e_argc e - S i) else clr sa i)
+                   (assign (e_pre e) o (ARest (skipn (S i) (e_strs e))) sto) sbad shelps snbad)).
+  Proof.
+    intros Ha HSi Hstr Hr Hfind Hkind Hwf. assert (Hi : i < e_argc e) by lia.
+    destruct (ahead_i _ _ Ha Hi) as (Hai & Hil).
+    assert (HSi' : (S i <? e_argc e) = true) by now apply Nat.ltb_lt.
+    destruct Ha as (Hlen & Hlast & Hk).
+    destruct r as [x|l]; cbn [ref_arg] in Hstr.
+    - unfold letter_ok_b in Hr. apply andb_true_iff in Hr. destruct Hr as [_ H45]. apply negb_true_iff in H45.
+      destruct (find_short_spec _ _ _ Hfind) as (j & Hj & Hnth).
+      rewrite (step_start _ i x []); auto.
+      rewrite (lookup_short _ _ _ 1 x j Hstr); auto.
+      apply (after_find_rest _ _ _ _ _ _ _ _ _ _ [x] Hnth); auto.
+      + intros k Hk'. apply Hk. lia.
+      + unfold find_value. cbn [fst snd]. rewrite (getc_at _ _ 2 Hstr) by (simpl; lia). reflexivity.
+      + rewrite (cstr_at_at _ _ 1 Hstr) by (simpl; lia). reflexivity.
+    - pose proof (find_long_spec _ l [] _ Hnames Hr ltac:(left; reflexivity) Hfind) as (j & Hj & Hnth).
+      rewrite app_nil_r in Hj.
+      unfold name_ok in Hr. apply andb_true_iff in Hr. destruct Hr as [Hnzl Hnoeq].
+      rewrite (step_start _ i 45%Z l); auto.
+      rewrite (lookup_long _ _ _ 1 j Hstr); auto.
+      apply (after_find_rest _ _ _ _ _ _ _ _ _ _ l Hnth); auto.
+      + intros k Hk'. apply Hk. lia.
+      + unfold find_value. rewrite (cstr_at_at _ _ 2 Hstr) by (simpl; lia). cbn [bind].
+        change (skipn 2 (45%Z :: 45%Z :: l)) with l. rewrite (index_eq_none _ Hnoeq). reflexivity.
+      + rewrite (cstr_at_at _ _ 2 Hstr) by (simpl; lia). reflexivity.
+  Qed.
+End Rules.
+
+(* ---------------------------------------------------------------------------------- *)
+(* D. induction over the spelling list                                                 *)
+(* ---------------------------------------------------------------------------------- *)
+Lemma nth_error_skipn_add {A} (l : list A) i k : nth_error (skipn i l) k = nth_error l (i + k).
+Proof.
+  revert i; induction l as [|x t IH]; intros [|i]; simpl; auto.
+  - rewrite skipn_nil. now destruct k.
+  - rewrite skipn_cons. apply IH.
+Qed.
+
+Lemma put_wf {A} n (l : list A) slot f : length l = n -> length (put l slot f) = n.
+Proof. intros. now rewrite put_length. Qed.
+
+Lemma assign_wf n pre o a sto : wf_store n sto -> wf_store n (assign pre o a sto).
+Proof.
+  intros (W1 & W2 & W3 & W4). unfold assign. destruct (negb _); [unfold wf_store; auto|].
+  destruct (kind_of o), a; unfold wf_store; simpl; rewrite ?put_length; auto.
+  destruct (o_slot o); simpl; auto.
+Qed.
+
+Lemma assign_ref_wf n pre tbl r a sto : wf_store n sto -> wf_store n (assign_ref pre tbl r a sto).
+Proof. intros H. unfold assign_ref. destruct (find_opt tbl r); auto. now apply assign_wf. Qed.
+
+(* rounds of the loop a spelling takes *)
+Definition cost (sp : spelling) : nat := match sp with Bundle xs => length xs | _ => 1 end.
+Definition costs (sps : list spelling) : nat := fold_right (fun sp a => cost sp + a) 0 sps.
+
+Ltac split1 H H' := apply andb_true_iff in H; destruct H as [H H'].
+
+Section Trip.
+  Variable e : env.
+  Variable n : nat.
+  Hypothesis Hargc : e_argc e = length (e_strs e).
+  Hypothesis Hnz : forall i s, nth_error (e_strs e) i = Some s -> nz_word s = true.
+  Hypothesis Hnames : names_ok (e_tbl e) = true.
+  Hypothesis Hwt : wf_table n (e_tbl e).
+
+  Let tbl := e_tbl e.
+  Let pre := e_pre e.
+  Let step_mid_ := step_mid e Hargc.
+  Let lookup_flag_ := lookup_flag e n Hargc Hnz Hwt.
+  Let run_word_ := run_word e Hargc.
+  Let run_attached_ := run_attached e n Hargc Hnz Hwt.
+  Let run_sep_ := run_sep e n Hargc Hnz Hwt.
+  Let run_longeq_ := run_longeq e n Hargc Hnz Hnames Hwt.
+  Let run_longsep_ := run_longsep e n Hargc Hnz Hnames Hwt.
+  Let run_longflag_ := run_longflag e n Hargc Hnz Hnames Hwt.
+  Let run_rest_ := run_rest e n Hargc Hnz Hnames Hwt.
+  Let ahead_mono_ := ahead_mono e Hargc.
+  Let ahead_clr_ := ahead_clr e Hargc.
+  Let ahead_i_ := ahead_i e Hargc.
+  Let ahead_nxt_ := ahead_nxt e Hargc.
+
+  (* argv after the loop, as a function of the spellings still ahead *)
+  Fixpoint argv_after (sa : list (option nat)) (i : nat) (sps : list spelling) : list (option nat) :=
+    match sps with
+    | [] => sa
+    | Word _ :: r => argv_after sa (S i) r
+    | ShortSep _ _ :: r | LongSep _ _ :: r | BoolWord _ _ :: r =>
+        argv_after (clr e (clr e sa i) (S i)) (S (S i)) r
+    | ArgListRest _ _ :: _ =>
+        if rm_active e then nulls_from (clr e sa i) (S i) (e_argc e - S i) else clr e sa i
+    | _ :: r => argv_after (clr e sa i) (S i) r
+    end.
+
+  (* a bundle of flags, letter by letter *)
+  Lemma bundle_run xs : forall done sa sto sbad shelps snbad f i nxt a,
+    nth_error (e_strs e) i = Some (45%Z :: done ++ xs) -> xs <> [] ->
+    forallb (fun x => letter_ok_b x && opt_is tbl (ByShort x) flag_kind) xs = true ->
+    i < e_argc e -> i < length sa -> nth_error sa i = Some a -> nxt_ok e sa i nxt -> wf_store n sto ->
+    lookup e (loop (length xs - 1 + f) e) (mkst i sa sto sbad shelps snbad) (i, 1 + length done) =
+    loop f e (mkst (S i) (clr e sa i) (fold_left (fun s x => assign_ref pre tbl (ByShort x) AFlag s) xs sto) sbad shelps snbad)
+         (arg_ptr nxt).
+  Proof.
+    induction xs as [|x xs IH]; intros done sa sto sbad shelps snbad f i nxt a Hstr Hne Hall Hi Hil Hai Hnxt Hwf; [congruence|].
+    cbn [forallb] in Hall. apply andb_true_iff in Hall. destruct Hall as [Hx Hall].
+    apply andb_true_iff in Hx. destruct Hx as [Hlet Hopt].
+    unfold opt_is in Hopt. destruct (find_opt tbl (ByShort x)) as [o|] eqn:Ef; [|discriminate].
+    assert (Hnx : nth_error (45%Z :: done ++ x :: xs) (1 + length done) = Some x).
+    { cbn [Nat.add nth_error]. rewrite nth_error_app2, Nat.sub_diag by lia. reflexivity. }
+    rewrite (lookup_flag_ _ _ _ _ _ _ _ _ _ x o nxt Hstr Hnx Hlet Ef Hopt Hil Hnxt Hwf).
+    cbv zeta. cbn [fold_left]. unfold assign_ref at 2. fold tbl. rewrite Ef. fold pre.
+    destruct xs as [|y xs].
+    - (* last letter *)
+      assert (Hlast : (S (1 + length done) <? length (45%Z :: done ++ [x])) = false).
+      { apply Nat.ltb_ge. simpl. rewrite app_length. simpl. lia. }
+      rewrite Hlast. reflexivity.
+    - assert (Hmore : (S (1 + length done) <? length (45%Z :: done ++ x :: y :: xs)) = true).
+      { apply Nat.ltb_lt. simpl. rewrite app_length. simpl. lia. }
+      rewrite Hmore. replace (length (x :: y :: xs) - 1 + f) with (S (length xs + f)) by (simpl; lia). cbn [loop].
+      assert (Hai' : exists a', nth_error (clr e sa i) i = Some a').
+      { destruct (nth_error (clr e sa i) i) eqn:E; eauto. apply nth_error_None in E. rewrite clr_length in E. lia. }
+      destruct Hai' as (a' & Hai').
+      rewrite (step_mid_ _ _ i _ a'); auto; try lia.
+      replace (S (1 + length done)) with (1 + length (done ++ [x])) by (rewrite app_length; simpl; lia).
+      replace (length xs + f) with (length (y :: xs) - 1 + f) by (simpl; lia).
+      rewrite (IH (done ++ [x]) (clr e sa i) _ sbad shelps snbad f i nxt a'); auto.
+      + now rewrite clr_idem.
+      + rewrite <- app_assoc. exact Hstr.
+      + discriminate.
+      + now rewrite clr_length.
+      + destruct Hnxt as (Hn1 & Hn2). split; auto. rewrite clr_other by lia. exact Hn1.
+      + now apply assign_wf.
+  Qed.
+  (* ---- the list of remaining strings and positions ---- *)
+  Lemma skipn_add {A} (l : list A) i m : skipn (i + m) l = skipn m (skipn i l).
+  Proof.
+    revert l; induction i as [|i IH]; intros l; [reflexivity|].
+    destruct l as [|x t]; cbn [Nat.add]; [now rewrite !skipn_nil|]. rewrite !skipn_cons. apply IH.
+  Qed.
+  Lemma skipn_step {A} (l : list A) i a b : skipn i l = a ++ b -> skipn (i + length a) l = b.
+  Proof.
+    intros H. rewrite skipn_add, H. apply skipn_app_exact.
+  Qed.
+  Lemma skipn_nth {A} (l : list A) i a b k : skipn i l = a ++ b -> k < length a -> nth_error l (i + k) = nth_error a k.
+  Proof. intros H Hk. rewrite <- nth_error_skipn_add, H. now apply nth_error_app1. Qed.
+  Lemma skipn_nth_next {A} (l : list A) i a b : skipn i l = a ++ b -> nth_error l (i + length a) = hd_error b.
+  Proof.
+    intros H. rewrite <- nth_error_skipn_add, H, nth_error_app2, Nat.sub_diag by lia. now destruct b.
+  Qed.
+  Lemma skipn_lt {A} (l : list A) i x t : skipn i l = x :: t -> i < length l.
+  Proof.
+    intros H. destruct (Nat.lt_ge_cases i (length l)); auto. rewrite skipn_all2 in H by lia. discriminate.
+  Qed.
+
+  Lemma opt_is_inv r p : opt_is tbl r p = true -> exists o, find_opt tbl r = Some o /\ p o = true.
+  Proof. unfold opt_is. destruct (find_opt tbl r); [eauto|discriminate]. Qed.
+
+  Lemma render_one_nonempty sp : exists x t, render_one sp = x :: t.
+  Proof. destruct sp; simpl; eauto. Qed.
+  Lemma render_nil sps : render sps = [] -> sps = [].
+  Proof.
+    destruct sps as [|sp r]; auto. unfold render. simpl. destruct (render_one_nonempty sp) as (x & t & ->). discriminate.
+  Qed.
+  Lemma render_cons sp r : render (sp :: r) = render_one sp ++ render r.
+  Proof. reflexivity. Qed.
+
+  Lemma ahead_step sa i m : ahead e sa i -> i + m <= e_argc e -> ahead e sa (i + m).
+  Proof. intros H Hm. apply (ahead_mono_ sa i); auto. lia. Qed.
+
+  Lemma run_sps : forall rest i sa sto ws sbad shelps snbad f,
+    skipn i (e_strs e) = render rest -> ahead e sa i -> wf_store n sto -> sps_ok tbl rest = true ->
+    exists iend,
+      loop (costs rest + S f) e (mkst i sa sto sbad shelps snbad) (cur_at e i) =
+      Ok (Done pre (mkst iend (argv_after sa i rest) (fst (fold_left (ideal_one pre tbl) rest (sto, ws))) sbad shelps snbad)).
+  Proof.
+    induction rest as [|sp r IH]; intros i sa sto ws sbad shelps snbad f Hsk Ha Hwf Hok.
+    { (* end of the command line *)
+      exists i. cbn [costs fold_right Nat.add loop argv_after fold_left fst]. unfold step. cbn [st_i].
+      assert (Hge : (i <? e_argc e) = false).
+      { apply Nat.ltb_ge. rewrite Hargc. destruct (Nat.lt_ge_cases i (length (e_strs e))); auto.
+        exfalso. assert (length (skipn i (e_strs e)) = 0) by now rewrite Hsk. rewrite skipn_length in H0. lia. }
+      rewrite Hge. reflexivity. }
+    cbn [sps_ok] in Hok. apply andb_true_iff in Hok. destruct Hok as [Hsp Hrok].
+    rewrite render_cons in Hsk.
+    destruct (render_one_nonempty sp) as (x0 & t0 & Hr1).
+    assert (Hi : i < e_argc e). { rewrite Hargc. rewrite Hr1 in Hsk. eapply skipn_lt; eauto. }
+    assert (Hcur : cur_at e i = Some (i, 0)). { unfold cur_at. apply Nat.ltb_lt in Hi. now rewrite Hi. }
+    assert (Hlenle : i + length (render_one sp) <= e_argc e).
+    { rewrite Hargc. assert (Hl : length (skipn i (e_strs e)) = length (render_one sp ++ render r)) by now rewrite Hsk.
+      rewrite skipn_length, app_length in Hl. lia. }
+    pose proof (skipn_step _ _ _ _ Hsk) as Hsk'.
+    assert (Hnth : forall k, k < length (render_one sp) -> nth_error (e_strs e) (i + k) = nth_error (render_one sp) k)
+      by (intros; eapply skipn_nth; eauto).
+    pose proof (skipn_nth_next _ _ _ _ Hsk) as Hnext.
+    cbn [costs fold_right]. fold (costs r). rewrite Hcur.
+    (* one-round spellings: loop (1 + m) = step (loop m) *)
+    destruct sp as [x|xs|x v|x v|l|l v|l v|l w|ro lws|w]; cbn [render_one length] in *; cbn [cost sp_ok] in *.
+    - (* ShortFlag *)
+      apply andb_true_iff in Hsp. destruct Hsp as [Hlet Hopt].
+      pose proof (Hnth 0 ltac:(lia)) as Hstr. rewrite Nat.add_0_r in Hstr. cbn [nth_error] in Hstr.
+      destruct (ahead_i_ sa i Ha Hi) as (Hai & Hil).
+      cbn [Nat.add loop]. rewrite (step_start e Hargc Hnz _ _ i x []); auto.
+      pose proof (bundle_run [x] [] sa sto sbad shelps snbad (costs r + S f) i _ _ Hstr ltac:(discriminate)
+                             ltac:(cbn [forallb]; rewrite Hlet, Hopt; reflexivity) Hi Hil Hai (ahead_nxt_ sa i Ha Hi) Hwf) as Hb.
+      cbn [length Nat.sub Nat.add] in Hb. rewrite Hb. rewrite arg_ptr_cur.
+      replace (S i) with (i + 1) by lia.
+      destruct (IH (i + 1) (clr e sa i) (fold_left (fun s x => assign_ref pre tbl (ByShort x) AFlag s) [x] sto) ws sbad shelps snbad f)
+        as (iend & Hend); auto.
+      + apply ahead_clr_; try lia. apply ahead_step; auto.
+      + cbn [fold_left]. now apply assign_ref_wf.
+      + exists iend. fold pre. rewrite Hend. cbn [fold_left ideal_one argv_after]. replace (i + 1) with (S i) by lia. reflexivity.
+    - (* Bundle *)
+      apply andb_true_iff in Hsp. destruct Hsp as [Hne Hall].
+      destruct xs as [|x xs]; [discriminate|].
+      pose proof (Hnth 0 ltac:(lia)) as Hstr. rewrite Nat.add_0_r in Hstr. cbn [nth_error] in Hstr.
+      destruct (ahead_i_ sa i Ha Hi) as (Hai & Hil).
+      rewrite <- Nat.add_assoc. cbn [length Nat.add loop]. rewrite (step_start e Hargc Hnz _ _ i x xs); auto.
+      pose proof (bundle_run (x :: xs) [] sa sto sbad shelps snbad (costs r + S f) i _ _ Hstr ltac:(discriminate)
+                             Hall Hi Hil Hai (ahead_nxt_ sa i Ha Hi) Hwf) as Hb.
+      cbn [length Nat.sub Nat.add] in Hb. rewrite Nat.sub_0_r in Hb. rewrite Hb. rewrite arg_ptr_cur.
+      replace (S i) with (i + 1) by lia.
+      destruct (IH (i + 1) (clr e sa i) (fold_left (fun s x => assign_ref pre tbl (ByShort x) AFlag s) (x :: xs) sto) ws sbad shelps snbad f)
+        as (iend & Hend); auto.
+      + apply ahead_clr_; try lia. apply ahead_step; auto.
+      + clear - Hwf. revert sto Hwf. generalize (x :: xs). intros l. induction l; intros; cbn [fold_left]; auto.
+        apply IHl. now apply assign_ref_wf.
+      + exists iend. fold pre. rewrite Hend. cbn [fold_left ideal_one argv_after]. replace (i + 1) with (S i) by lia. reflexivity.
+    - (* ShortAttached *)
+      split1 Hsp Hopt. split1 Hsp Hvne. split1 Hsp Hnzv.
+      destruct (opt_is_inv _ _ Hopt) as (o & Hfind & Hkind).
+      pose proof (Hnth 0 ltac:(lia)) as Hstr. rewrite Nat.add_0_r in Hstr. cbn [nth_error] in Hstr.
+      cbn [Nat.add loop]. rewrite (run_attached_ _ sa sto sbad shelps snbad i x v o); auto.
+      2:{ destruct v; [discriminate|congruence]. }
+      replace (S i) with (i + 1) by lia.
+      destruct (IH (i + 1) (clr e sa i) (assign pre o (AVal v) sto) ws sbad shelps snbad f) as (iend & Hend); auto.
+      + apply ahead_clr_; try lia. apply ahead_step; auto.
+      + now apply assign_wf.
+      + exists iend. fold pre. rewrite Hend. cbn [fold_left ideal_one argv_after]. unfold assign_ref. fold tbl. rewrite Hfind.
+        replace (i + 1) with (S i) by lia. reflexivity.
+    - (* ShortSep *)
+      split1 Hsp Hopt. split1 Hsp Hnzv.
+      destruct (opt_is_inv _ _ Hopt) as (o & Hfind & Hkind).
+      pose proof (Hnth 0 ltac:(lia)) as Hstr. rewrite Nat.add_0_r in Hstr. cbn [nth_error] in Hstr.
+      pose proof (Hnth 1 ltac:(lia)) as Hstr1. cbn [nth_error] in Hstr1. replace (i + 1) with (S i) in Hstr1 by lia.
+      cbn [Nat.add loop]. rewrite (run_sep_ _ sa sto sbad shelps snbad i x v o); auto; try lia.
+      replace (S (S i)) with (i + 2) by lia.
+      destruct (IH (i + 2) (clr e (clr e sa i) (S i)) (assign pre o (AVal v) sto) ws sbad shelps snbad f) as (iend & Hend); auto.
+      + apply ahead_clr_; try lia. apply ahead_clr_; try lia. apply ahead_step; auto.
+      + now apply assign_wf.
+      + exists iend. fold pre. rewrite Hend. cbn [fold_left ideal_one argv_after]. unfold assign_ref. fold tbl. rewrite Hfind.
+        replace (i + 2) with (S (S i)) by lia. reflexivity.
+    - (* LongFlag *)
+      split1 Hsp H. split1 Hsp Hopt.
+      destruct (opt_is_inv _ _ Hopt) as (o & Hfind & Hkind).
+      pose proof (Hnth 0 ltac:(lia)) as Hstr. rewrite Nat.add_0_r in Hstr. cbn [nth_error] in Hstr.
+      cbn [Nat.add loop]. rewrite (run_longflag_ _ sa sto sbad shelps snbad i l o); auto.
+      2:{ intros Hb vs Hvs. replace (S i) with (i + 1) in Hvs by lia. rewrite Hnext in Hvs.
+          unfold opt_is in H. fold tbl in Hfind. rewrite Hfind, Hb in H. cbn [negb orb] in H.
+          unfold word in *. rewrite Hvs in H. now apply negb_true_iff in H. }
+      replace (S i) with (i + 1) by lia.
+      destruct (IH (i + 1) (clr e sa i) (assign pre o AFlag sto) ws sbad shelps snbad f) as (iend & Hend); auto.
+      + apply ahead_clr_; try lia. apply ahead_step; auto.
+      + now apply assign_wf.
+      + exists iend. fold pre. rewrite Hend. cbn [fold_left ideal_one argv_after]. unfold assign_ref. fold tbl. rewrite Hfind.
+        replace (i + 1) with (S i) by lia. reflexivity.
+    - (* LongEq *)
+      split1 Hsp H. split1 Hsp Hnzv.
+      assert (Hk : exists o, find_opt tbl (ByLong l) = Some o /\ keeps_value o v true true).
+      { apply orb_true_iff in H. destruct H as [H|H]; [apply orb_true_iff in H; destruct H as [H|H]|].
+        - destruct (opt_is_inv _ _ H) as (o & ? & ?). exists o. split; auto. left; auto.
+        - apply andb_true_iff in H. destruct H as [H Hbv]. destruct (opt_is_inv _ _ H) as (o & ? & ?).
+          exists o. split; auto. right; left; auto.
+        - destruct (opt_is_inv _ _ H) as (o & ? & ?). exists o. split; auto. right; right; auto. }
+      destruct Hk as (o & Hfind & Hkind).
+      pose proof (Hnth 0 ltac:(lia)) as Hstr. rewrite Nat.add_0_r in Hstr. cbn [nth_error] in Hstr.
+      cbn [Nat.add loop]. rewrite (run_longeq_ _ sa sto sbad shelps snbad i l v o); auto.
+      replace (S i) with (i + 1) by lia.
+      destruct (IH (i + 1) (clr e sa i) (assign pre o (AVal v) sto) ws sbad shelps snbad f) as (iend & Hend); auto.
+      + apply ahead_clr_; try lia. apply ahead_step; auto.
+      + now apply assign_wf.
+      + exists iend. fold pre. rewrite Hend. cbn [fold_left ideal_one argv_after]. unfold assign_ref. fold tbl. rewrite Hfind.
+        replace (i + 1) with (S i) by lia. reflexivity.
+    - (* LongSep *)
+      split1 Hsp Hopt. split1 Hsp Hnzv.
+      destruct (opt_is_inv _ _ Hopt) as (o & Hfind & Hkind).
+      pose proof (Hnth 0 ltac:(lia)) as Hstr. rewrite Nat.add_0_r in Hstr. cbn [nth_error] in Hstr.
+      pose proof (Hnth 1 ltac:(lia)) as Hstr1. cbn [nth_error] in Hstr1. replace (i + 1) with (S i) in Hstr1 by lia.
+      cbn [Nat.add loop]. rewrite (run_longsep_ _ sa sto sbad shelps snbad i l v o); auto; try lia.
+      replace (S (S i)) with (i + 2) by lia.
+      destruct (IH (i + 2) (clr e (clr e sa i) (S i)) (assign pre o (AVal v) sto) ws sbad shelps snbad f) as (iend & Hend); auto.
+      + apply ahead_clr_; try lia. apply ahead_clr_; try lia. apply ahead_step; auto.
+      + now apply assign_wf.
+      + exists iend. fold pre. rewrite Hend. cbn [fold_left ideal_one argv_after]. unfold assign_ref. fold tbl. rewrite Hfind.
+        replace (i + 2) with (S (S i)) by lia. reflexivity.
+    - (* BoolWord *)
+      split1 Hsp Hbv. split1 Hsp Hopt. split1 Hsp Hnzw.
+      destruct (opt_is_inv _ _ Hopt) as (o & Hfind & Hkind).
+      pose proof (Hnth 0 ltac:(lia)) as Hstr. rewrite Nat.add_0_r in Hstr. cbn [nth_error] in Hstr.
+      pose proof (Hnth 1 ltac:(lia)) as Hstr1. cbn [nth_error] in Hstr1. replace (i + 1) with (S i) in Hstr1 by lia.
+      cbn [Nat.add loop]. rewrite (run_longsep_ _ sa sto sbad shelps snbad i l w o); auto; try lia.
+      replace (S (S i)) with (i + 2) by lia.
+      destruct (IH (i + 2) (clr e (clr e sa i) (S i)) (assign pre o (AVal w) sto) ws sbad shelps snbad f) as (iend & Hend); auto.
+      + apply ahead_clr_; try lia. apply ahead_clr_; try lia. apply ahead_step; auto.
+      + now apply assign_wf.
+      + exists iend. fold pre. rewrite Hend. cbn [fold_left ideal_one argv_after]. unfold assign_ref. fold tbl. rewrite Hfind.
+        replace (i + 2) with (S (S i)) by lia. reflexivity.
+    - (* ArgListRest *)
+      split1 Hsp Hnone. split1 Hsp Hnzws. split1 Hsp Hne. split1 Hsp Hopt.
+      destruct (opt_is_inv _ _ Hopt) as (o & Hfind & Hkind).
+      assert (Hr : r = []). { apply render_nil. destruct (render r); [reflexivity|discriminate]. }
+      subst r. destruct lws as [|w0 lws]; [discriminate|].
+      pose proof (Hnth 0 ltac:(simpl; lia)) as Hstr. rewrite Nat.add_0_r in Hstr. cbn [nth_error] in Hstr.
+      cbn [Nat.add loop]. rewrite (run_rest_ _ sa sto sbad shelps snbad i ro o); auto.
+      2:{ cbn [length] in Hlenle. lia. }
+      eexists. f_equal. f_equal. cbn [fold_left ideal_one argv_after fst]. unfold assign_ref. fold tbl. rewrite Hfind.
+      f_equal. f_equal. f_equal.
+      replace (S i) with (i + 1) by lia. rewrite skipn_add, Hsk.
+      unfold render. cbn [map concat]. rewrite app_nil_r. reflexivity.
+    - (* Word *)
+      apply andb_true_iff in Hsp. destruct Hsp as [Hnzw Hw].
+      pose proof (Hnth 0 ltac:(lia)) as Hstr. rewrite Nat.add_0_r in Hstr. cbn [nth_error] in Hstr.
+      cbn [Nat.add loop]. rewrite (run_word_ _ sa sto sbad shelps snbad i w); auto.
+      replace (S i) with (i + 1) by lia.
+      destruct (IH (i + 1) sa sto (ws ++ [w]) sbad shelps snbad f) as (iend & Hend); auto.
+      + apply ahead_step; auto.
+      + exists iend. fold pre. rewrite Hend. cbn [fold_left ideal_one argv_after]. replace (i + 1) with (S i) by lia. reflexivity.
+  Qed.
+End Trip.
+
+(* ---------------------------------------------------------------------------------- *)
+(* the theorem                                                                         *)
+(* ---------------------------------------------------------------------------------- *)
+Definition words_of (sps : list spelling) : list word :=
+  flat_map (fun sp => match sp with Word w => [w] | _ => [] end) sps.
+
+Lemma ideal_words pre tbl sps : forall sto ws,
+  snd (fold_left (ideal_one pre tbl) sps (sto, ws)) = ws ++ words_of sps.
+Proof.
+  induction sps as [|sp r IH]; intros sto ws; cbn [fold_left words_of flat_map snd].
+  - now rewrite app_nil_r.
+  - destruct sp; cbn [ideal_one]; rewrite IH; cbn [app]; try reflexivity.
+    now rewrite <- app_assoc.
+Qed.
+
+Lemma total_app a b : total (a ++ b) = total a + total b.
+Proof. induction a as [|x t IH]; simpl; [reflexivity|]. rewrite IH. lia. Qed.
+
+Lemma costs_le sps : costs sps <= total (render sps).
+Proof.
+  induction sps as [|sp r IH]; [simpl; lia|].
+  rewrite render_cons, total_app. cbn [costs fold_right]. fold (costs r).
+  assert (cost sp <= total (render_one sp)); [|lia].
+  destruct sp; simpl; lia.
+Qed.
+
+Lemma sp_ok_nz tbl sp next s : sp_ok tbl sp next = true -> In s (render_one sp) -> nz_word s = true.
+Proof.
+  intros Hok Hin. unfold letter_ok_b, name_ok in *.
+  destruct sp as [x|xs|x v|x v|l|l v|l v|l w|ro lws|w]; cbn [render_one sp_ok] in *.
+  - split1 Hok H. split1 Hok H0. destruct Hin as [<-|[]]. simpl. now rewrite Hok.
+  - split1 Hok Hall. destruct Hin as [<-|[]]. cbn [nz_word forallb Z.eqb negb andb].
+    clear Hok. induction xs as [|x xs IH]; [reflexivity|]. cbn [forallb] in *. split1 Hall H.
+    split1 Hall H0. split1 Hall H1. rewrite Hall. cbn [andb]. now apply IH.
+  - split1 Hok H. split1 Hok H0. split1 Hok H1. split1 Hok H2. destruct Hin as [<-|[]].
+    cbn [nz_word forallb Z.eqb negb andb]. rewrite Hok. exact H1.
+  - split1 Hok H. split1 Hok H0. split1 Hok H1. destruct Hin as [<-|[<-|[]]]; auto.
+    cbn [nz_word forallb Z.eqb negb andb]. now rewrite Hok.
+  - split1 Hok H. split1 Hok H0. split1 Hok H1. destruct Hin as [<-|[]]. exact Hok.
+  - split1 Hok H. split1 Hok H0. split1 Hok H1. destruct Hin as [<-|[]].
+    cbn [nz_word forallb Z.eqb negb andb]. fold (nz_word (l ++ 61%Z :: v)). rewrite nz_word_app, Hok.
+    cbn [nz_word forallb Z.eqb negb andb]. exact H0.
+  - split1 Hok H. split1 Hok H0. split1 Hok H1. destruct Hin as [<-|[<-|[]]]; auto.
+  - split1 Hok H. split1 Hok H0. split1 Hok H1. split1 Hok H2. destruct Hin as [<-|[<-|[]]]; auto.
+  - split1 Hok H. split1 Hok H0. split1 Hok H1. split1 Hok H2. destruct Hin as [<-|Hin].
+    + destruct ro as [x|l]; cbn [ref_arg].
+      * split1 Hok H3. cbn [nz_word forallb Z.eqb negb andb]. now rewrite Hok.
+      * split1 Hok H3. exact Hok.
+    + rewrite forallb_forall in H0. auto.
+  - split1 Hok H. destruct Hin as [<-|[]]. exact Hok.
+Qed.
+
+Lemma sps_ok_nz tbl sps s : sps_ok tbl sps = true -> In s (render sps) -> nz_word s = true.
+Proof.
+  induction sps as [|sp r IH]; intros Hok Hin; [destruct Hin|].
+  cbn [sps_ok] in Hok. split1 Hok Hr. rewrite render_cons in Hin. apply in_app_or in Hin.
+  destruct Hin as [Hin|Hin]; [eapply sp_ok_nz; eauto|auto].
+Qed.
+
+Lemma argv_after_id e sa i sps : rm_active e = false -> argv_after e sa i sps = sa.
+Proof.
+  intros Hrm. revert sa i; induction sps as [|sp r IH]; intros sa i; [reflexivity|].
+  assert (Hc : forall a k, clr e a k = a) by (intros; unfold clr; now rewrite Hrm).
+  destruct sp; cbn [argv_after]; rewrite ?Hc, ?Hrm; auto.
+Qed.
+
+Lemma ahead_init e : e_argc e = length (e_strs e) -> ahead e (init_argv (e_argc e)) 1.
+Proof.
+  intros H. repeat split.
+  - apply init_argv_length.
+  - apply init_argv_last.
+  - intros k Hk. apply init_argv_lt. lia.
+Qed.
+
+(* ---- argv after the loop and after the compaction ---- *)
+Definition somes (l : list (option nat)) : list nat :=
+  flat_map (fun x => match x with Some v => [v] | None => [] end) l.
+
+(* the positions of the non-option words, from position i on *)
+Fixpoint kept_ids (i : nat) (sps : list spelling) : list nat :=
+  match sps with
+  | [] => []
+  | ArgListRest _ _ :: _ => []                 (* takes the rest of the line *)
+  | sp :: r => (match sp with Word _ => [i] | _ => [] end) ++ kept_ids (i + length (render_one sp)) r
+  end.
+
+Lemma kept_ids_words tbl strs sps : forall i,
+  sps_ok tbl sps = true -> skipn i strs = render sps ->
+  map (fun k => nth k strs []) (kept_ids i sps) = words_of sps.
+Proof.
+  induction sps as [|sp r IH]; intros i Hok Hsk; [reflexivity|].
+  cbn [sps_ok] in Hok. split1 Hok Hrok.
+  rewrite render_cons in Hsk.
+  assert (Hgen : map (fun k => nth k strs []) ((match sp with Word _ => [i] | _ => [] end) ++ kept_ids (i + length (render_one sp)) r)
+                 = words_of (sp :: r)).
+  { cbn [words_of flat_map]. rewrite map_app.
+    rewrite (IH _ Hrok (skipn_step _ _ _ _ Hsk)). f_equal.
+    destruct sp; try reflexivity. cbn [map]. f_equal.
+    pose proof (skipn_nth _ _ _ _ 0 Hsk ltac:(simpl; lia)) as H. rewrite Nat.add_0_r in H. cbn [render_one nth_error] in H.
+    now apply nth_error_nth. }
+  destruct sp; try exact Hgen.
+  (* ArgListRest is the last spelling *)
+  cbn [sp_ok] in Hok. split1 Hok Hnone.
+  assert (Hr : r = []). { apply render_nil. destruct (render r); [reflexivity|discriminate]. }
+  subst r. reflexivity.
+Qed.
+
+Lemma nulls_from_length a k c : length (nulls_from a k c) = length a.
+Proof. revert a k; induction c as [|c IH]; intros a k; simpl; auto. now rewrite IH, upd_length. Qed.
+Lemma nulls_from_before a k c m : m < k -> nth_error (nulls_from a k c) m = nth_error a m.
+Proof.
+  revert a k; induction c as [|c IH]; intros a k H; simpl; auto.
+  rewrite IH by lia. apply nth_error_upd_neq. lia.
+Qed.
+Lemma nulls_from_in a k c m : k <= m < k + c -> m < length a -> nth_error (nulls_from a k c) m = Some None.
+Proof.
+  revert a k; induction c as [|c IH]; intros a k H Hl; simpl; [lia|].
+  destruct (Nat.eq_dec k m) as [->|Hne].
+  - rewrite nulls_from_before by lia. now apply nth_error_upd_eq.
+  - apply IH; [lia|now rewrite upd_length].
+Qed.
+
+Lemma argv_after_length e sa i sps : length (argv_after e sa i sps) = length sa.
+Proof.
+  revert sa i; induction sps as [|sp r IH]; intros sa i; [reflexivity|].
+  destruct sp; cbn [argv_after]; rewrite ?IH, ?clr_length; auto.
+  destruct (rm_active e); rewrite ?nulls_from_length, ?clr_length; auto.
+Qed.
+
+Lemma argv_after_before e sa i sps k : k < i -> nth_error (argv_after e sa i sps) k = nth_error sa k.
+Proof.
+  revert sa i; induction sps as [|sp r IH]; intros sa i Hk; [reflexivity|].
+  destruct sp; cbn [argv_after]; rewrite ?IH by lia; rewrite ?clr_other by lia; auto.
+  destruct (rm_active e); rewrite ?nulls_from_before by lia; rewrite ?clr_other by lia; auto.
+Qed.
+
+Lemma clr_at e a k : rm_active e = true -> k < length a -> nth_error (clr e a k) k = Some None.
+Proof. intros Hrm Hk. unfold clr. rewrite Hrm. now apply nth_error_upd_eq. Qed.
+
+Lemma window_cons {A} (l : list A) i m x :
+  nth_error l i = Some x -> firstn (S m) (skipn i l) = x :: firstn m (skipn (S i) l).
+Proof.
+  revert i; induction l as [|y t IH]; intros [|i] H; simpl in H; try discriminate.
+  - inversion H; subst. reflexivity.
+  - rewrite !skipn_cons. now apply IH.
+Qed.
+
+Lemma nth_error_firstn_lt {A} (l : list A) n m : m < n -> nth_error (firstn n l) m = nth_error l m.
+Proof.
+  revert n m; induction l as [|x t IH]; intros [|n] [|m] H; simpl; auto; try lia. apply IH. lia.
+Qed.
+
+Lemma somes_nones l : (forall x, In x l -> x = None) -> somes l = [].
+Proof.
+  induction l as [|x t IH]; intros H; [reflexivity|]. cbn [somes flat_map].
+  rewrite (H x (or_introl eq_refl)). apply IH. intros; apply H; now right.
+Qed.
+
+(* the non-NULL slots behind position i after the loop are exactly the positions of the words *)
+Lemma argv_after_kept e :
+  e_argc e = length (e_strs e) -> rm_active e = true ->
+  forall sps sa i, skipn i (e_strs e) = render sps -> ahead e sa i -> i <= e_argc e ->
+  somes (firstn (e_argc e - i) (skipn i (argv_after e sa i sps))) = kept_ids i sps.
+Proof.
+  intros Hargc Hrm. induction sps as [|sp r IH]; intros sa i Hsk Ha Hile.
+  { assert (Hge : e_argc e <= i).
+    { rewrite Hargc. destruct (Nat.lt_ge_cases i (length (e_strs e))); auto.
+      exfalso. assert (length (skipn i (e_strs e)) = 0) by now rewrite Hsk. rewrite skipn_length in H0. lia. }
+    replace (e_argc e - i) with 0 by lia. reflexivity. }
+  rewrite render_cons in Hsk.
+  destruct (render_one_nonempty sp) as (x0 & t0 & Hr1).
+  assert (Hi : i < e_argc e). { rewrite Hargc. rewrite Hr1 in Hsk. eapply skipn_lt; eauto. }
+  assert (Hlenle : i + length (render_one sp) <= e_argc e).
+  { rewrite Hargc. assert (Hl : length (skipn i (e_strs e)) = length (render_one sp ++ render r)) by now rewrite Hsk.
+    rewrite skipn_length, app_length in Hl. lia. }
+  pose proof (skipn_step _ _ _ _ Hsk) as Hsk'.
+  destruct (ahead_i e Hargc sa i Ha Hi) as (Hai & Hil).
+  assert (Hone : forall sa', ahead e sa' (i + 1) -> length (render_one sp) = 1 ->
+                 nth_error (argv_after e sa' (S i) r) i = Some None ->
+                 somes (firstn (e_argc e - i) (skipn i (argv_after e sa' (S i) r))) = kept_ids (i + 1) r).
+  { intros sa' Ha' Hl1 Hnone. unfold word in *. replace (e_argc e - i) with (S (e_argc e - S i)) by lia.
+    rewrite (window_cons _ _ _ _ Hnone). cbn [somes flat_map app]. fold (somes (firstn (e_argc e - S i) (skipn (S i) (argv_after e sa' (S i) r)))).
+    replace (S i) with (i + 1) by lia. rewrite Hl1 in Hsk'. apply IH; auto. lia. }
+  assert (Htwo : forall sa', ahead e sa' (i + 2) -> length (render_one sp) = 2 ->
+                 nth_error (argv_after e sa' (S (S i)) r) i = Some None ->
+                 nth_error (argv_after e sa' (S (S i)) r) (S i) = Some None ->
+                 somes (firstn (e_argc e - i) (skipn i (argv_after e sa' (S (S i)) r))) = kept_ids (i + 2) r).
+  { intros sa' Ha' Hl2 Hn0 Hn1. unfold word in *. rewrite Hl2 in *. replace (e_argc e - i) with (S (S (e_argc e - S (S i)))) by lia.
+    rewrite (window_cons _ _ _ _ Hn0), (window_cons _ _ _ _ Hn1). cbn [somes flat_map app].
+    fold (somes (firstn (e_argc e - S (S i)) (skipn (S (S i)) (argv_after e sa' (S (S i)) r)))).
+    replace (S (S i)) with (i + 2) by lia. apply IH; auto. }
+  assert (Hc1 : nth_error (argv_after e (clr e sa i) (S i) r) i = Some None).
+  { rewrite argv_after_before by lia. apply clr_at; auto. }
+  assert (Hc2a : nth_error (argv_after e (clr e (clr e sa i) (S i)) (S (S i)) r) i = Some None).
+  { rewrite argv_after_before by lia. rewrite clr_other by lia. apply clr_at; auto. }
+  assert (Hc2b : S i < e_argc e -> nth_error (argv_after e (clr e (clr e sa i) (S i)) (S (S i)) r) (S i) = Some None).
+  { intros HS. rewrite argv_after_before by lia. apply clr_at; auto. rewrite clr_length. destruct Ha as (Hl & _). lia. }
+  assert (Ha1 : ahead e (clr e sa i) (i + 1)).
+  { apply (ahead_clr e Hargc); try lia. apply (ahead_mono e Hargc sa i); auto. lia. }
+  assert (Ha2 : S i < e_argc e -> ahead e (clr e (clr e sa i) (S i)) (i + 2)).
+  { intros HS. apply (ahead_clr e Hargc); try lia. apply (ahead_clr e Hargc); try lia. apply (ahead_mono e Hargc sa i); auto. lia. }
+  destruct sp as [x|xs|x v|x v|l|l v|l v|l w|ro lws|w]; cbn [argv_after kept_ids app render_one length] in *;
+    try (apply Hone; auto; fail); try (apply Htwo; auto; try apply Hc2b; try apply Ha2; lia).
+  - (* ArgListRest: everything from i on is NULL *)
+    rewrite Hrm. apply somes_nones.
+    intros y Hy. apply In_nth_error in Hy. destruct Hy as (m & Hm).
+      assert (Hml : m < e_argc e - i).
+      { assert (m < length (firstn (e_argc e - i) (skipn i (nulls_from (clr e sa i) (S i) (e_argc e - S i))))) by (apply nth_error_Some; congruence).
+        rewrite firstn_length in H. lia. }
+      rewrite nth_error_firstn_lt in Hm by exact Hml.
+      rewrite nth_error_skipn_add in Hm.
+      destruct m as [|m].
+      + rewrite Nat.add_0_r, nulls_from_before in Hm by lia. rewrite clr_at in Hm; auto. congruence.
+      + rewrite nulls_from_in in Hm; try lia; [congruence|]. rewrite clr_length. destruct Ha as (Hl & _). lia.
+  - (* Word: slot i is kept *)
+    assert (Hw : nth_error (argv_after e sa (S i) r) i = Some (Some i)) by (rewrite argv_after_before by lia; auto).
+    replace (e_argc e - i) with (S (e_argc e - S i)) by lia.
+    rewrite (window_cons _ _ _ _ Hw). cbn [somes flat_map app]. f_equal.
+    fold (somes (firstn (e_argc e - S i) (skipn (S i) (argv_after e sa (S i) r)))).
+    replace (S i) with (i + 1) by lia. apply IH; auto; try lia. apply (ahead_mono e Hargc sa i); auto. lia.
+Qed.
+
+(* the compaction loop *)
+Lemma firstn_upd_ge {A} (l : list A) k v m : m <= k -> firstn m (upd l k v) = firstn m l.
+Proof.
+  revert k m; induction l as [|x t IH]; intros [|k] [|m] H; simpl; auto; try lia. f_equal. apply IH. lia.
+Qed.
+Lemma firstn_upd_snoc {A} (l : list A) k v : k < length l -> firstn (S k) (upd l k v) = firstn k l ++ [v].
+Proof.
+  revert k; induction l as [|x t IH]; intros [|k] H; simpl in *; try lia; auto. f_equal. apply IH. lia.
+Qed.
+Lemma skipn_upd_lt {A} (l : list A) k v m : k < m -> skipn m (upd l k v) = skipn m l.
+Proof.
+  revert k m; induction l as [|x t IH]; intros [|k] [|m] H; simpl; auto; try lia. rewrite !skipn_cons. apply IH. lia.
+Qed.
+
+Lemma compact_spec n : forall a k j,
+  j <= k -> k + n <= length a ->
+  let kept := somes (firstn n (skipn k a)) in
+  exists a', compact a k n j = Ok (a', j + length kept) /\ length a' = length a /\
+             firstn (j + length kept) a' = firstn j a ++ map Some kept /\
+             (forall m, k + n <= m -> nth_error a' m = nth_error a m) /\
+             (kept = [] -> a' = a).
+Proof.
+  induction n as [|n IH]; intros a k j Hj Hk kept; subst kept.
+  - cbn [firstn somes flat_map length map compact]. rewrite Nat.add_0_r, app_nil_r. exists a. auto.
+  - cbn [compact]. unfold argv_get. destruct (nth_error a k) as [v|] eqn:Ev.
+    2:{ apply nth_error_None in Ev. lia. }
+    cbn [bind]. rewrite (window_cons _ _ _ _ Ev). destruct v as [sid|].
+    + unfold argv_set. assert (Hjl : j <? length a = true) by (apply Nat.ltb_lt; lia). rewrite Hjl. cbn [bind].
+      destruct (IH (upd a j (Some sid)) (S k) (S j)) as (a' & Hc & Hl & Hf & Hrest & _); try lia.
+      { rewrite upd_length. lia. }
+      rewrite skipn_upd_lt in Hc, Hf by lia.
+      cbn [somes flat_map app length]. fold (somes (firstn n (skipn (S k) a))).
+      exists a'. replace (j + S (length (somes (firstn n (skipn (S k) a))))) with (S j + length (somes (firstn n (skipn (S k) a)))) by lia.
+      split; [exact Hc|]. split; [now rewrite Hl, upd_length|]. split.
+      * rewrite Hf, firstn_upd_snoc by lia. rewrite <- app_assoc. reflexivity.
+      * split; [|discriminate]. intros m Hm. rewrite Hrest by lia. apply nth_error_upd_neq. lia.
+    + cbn [somes flat_map app]. fold (somes (firstn n (skipn (S k) a))).
+      destruct (IH a (S k) j) as (a' & Hc & Hl & Hf & Hrest & Hsame); try lia.
+      exists a'. split; [exact Hc|]. split; [exact Hl|]. split; [exact Hf|]. split; [|exact Hsame].
+      intros m Hm. apply Hrest. lia.
+Qed.
+
+Lemma argv_words_prefix strs ids t : argv_words strs (map Some ids ++ None :: t) = map (fun k => nth k strs []) ids.
+Proof. induction ids as [|k ids IH]; simpl; [reflexivity|]. now rewrite IH. Qed.
+
+Lemma split_at {A} (l : list A) j x : nth_error l j = Some x -> l = firstn j l ++ x :: skipn (S j) l.
+Proof.
+  revert j; induction l as [|y t IH]; intros [|j] H; simpl in H; try discriminate.
+  - inversion H; subst. reflexivity.
+  - simpl. rewrite skipn_cons. f_equal. now apply IH.
+Qed.
+
+Lemma somes_length_le l : length (somes l) <= length l.
+Proof. induction l as [|x t IH]; simpl; [lia|]. destruct x; simpl; rewrite ?app_length; simpl; lia. Qed.
+
+Lemma somes_head_none x t : somes (x :: t) = [] -> x = None.
+Proof. destruct x; [discriminate|reflexivity]. Qed.
+
+(* parse_round_trip.  For every table (value pointers into the pools, booleans with one, long
+   names without '='), every list of spellings that satisfies the side conditions [sps_ok], every
+   program name, all four {preparse, remove_args} settings, every bad-option limit and help handler:
+   parsing the rendered command line returns normally with the targets exactly as the ideal reading
+   leaves them, no bad option counted and the help handler never called; with argument removal in
+   effect argv afterwards is the program name followed by the non-option words in their order and
+   a NULL, otherwise argv is untouched. *)
+Theorem parse_round_trip tbl pre rm allow ret prog sps sto bad n :
+  wf_table n tbl -> names_ok tbl = true -> wf_store n sto -> nz_word prog = true -> sps_ok tbl sps = true ->
+  let strs := prog :: render sps in
+  let e := mkenv tbl strs (length strs) pre rm allow ret in
+  exists s', parse e (init_st (length strs) sto bad) = Ok (Done (pre && (length strs <=? 1)) s') /\
+             st_sto s' = fst (ideal pre tbl sps sto) /\
+             st_bad s' = bad /\ st_helps s' = 0 /\ st_nbad s' = 0 /\
+             (if negb pre && rm
+              then argv_words strs (st_argv s') = prog :: snd (ideal pre tbl sps sto)
+              else st_argv s' = init_argv (length strs)).
+Proof.
+  intros Hwt Hnames Hwf Hprog Hok strs e.
+  assert (Hargc : e_argc e = length (e_strs e)) by reflexivity.
+  assert (Hnz : forall i s, nth_error (e_strs e) i = Some s -> nz_word s = true).
+  { intros i s Hs. apply nth_error_In in Hs. destruct Hs as [<-|Hs]; auto. eapply sps_ok_nz; eauto. }
+  unfold parse, parse_with. change (e_argc e) with (length strs). change (e_strs e) with strs. change (e_pre e) with pre.
+  destruct (length strs <=? 1) eqn:Ea.
+  { (* no arguments: REQUIRE(argc > 1) *)
+    apply Nat.leb_le in Ea. assert (Hs : sps = []).
+    { apply render_nil. destruct (render sps) eqn:E; auto. subst strs. simpl in Ea. lia. }
+    subst sps. eexists; split; [rewrite andb_true_r; reflexivity|]. cbn.
+    repeat split; auto. destruct (negb pre && rm); reflexivity. }
+  apply Nat.leb_gt in Ea. rewrite andb_false_r.
+  unfold argv_get. cbn [init_st st_argv]. rewrite (init_argv_lt _ 1 Ea).
+  cbn [bind arg_ptr option_map set_i st_i st_argv st_sto st_bad st_helps st_nbad].
+  pose proof (costs_le sps) as Hc.
+  assert (Hfuel : parse_fuel strs = costs sps + S (total strs - costs sps)).
+  { rewrite parse_fuel_total. subst strs. simpl. lia. }
+  rewrite Hfuel.
+  destruct (run_sps e n Hargc Hnz Hnames Hwt sps 1 (init_argv (length strs)) sto [] bad 0 0 (total strs - costs sps))
+    as (iend & Hloop); auto.
+  { apply (ahead_init e Hargc). }
+  assert (Hcur : cur_at e 1 = Some (1, 0)).
+  { unfold cur_at. change (e_argc e) with (length strs). apply Nat.ltb_lt in Ea. now rewrite Ea. }
+  rewrite Hcur in Hloop.
+  change (set_i (init_st (length strs) sto bad) 1) with (mkst 1 (init_argv (length strs)) sto bad 0 0).
+  rewrite Hloop. cbn [bind].
+  unfold epilogue. change (e_pre e) with pre. change (e_rm e) with rm.
+  set (A := argv_after e (init_argv (length strs)) 1 sps).
+  assert (Hst : fst (fold_left (ideal_one pre (e_tbl e)) sps (sto, [])) = fst (ideal pre tbl sps sto)) by reflexivity.
+  destruct pre eqn:Epre.
+  { eexists; split; [reflexivity|]. cbn. repeat split; auto. apply argv_after_id. reflexivity. }
+  destruct rm eqn:Erm.
+  2:{ eexists; split; [reflexivity|]. cbn. repeat split; auto. apply argv_after_id. reflexivity. }
+  (* argument removal: the compaction *)
+  assert (Hrm : rm_active e = true) by reflexivity.
+  assert (HlA : length A = S (length strs)) by (unfold A; rewrite argv_after_length; apply init_argv_length).
+  cbn [st_argv negb andb].
+  destruct (compact_spec (length strs - 1) A 1 1) as (a' & Hcm & Hl' & Hf & Hrest & Hsame); try lia.
+  change (e_argc e) with (length strs).
+  assert (Hkept : somes (firstn (length strs - 1) (skipn 1 A)) = kept_ids 1 sps).
+  { apply (argv_after_kept e Hargc Hrm sps (init_argv (length strs)) 1); auto.
+    - apply (ahead_init e Hargc).
+    - change (e_argc e) with (length strs). lia. }
+  rewrite Hkept in *. rewrite Hcm. cbn [bind].
+  assert (HA0 : nth_error A 0 = Some (Some 0)).
+  { unfold A. rewrite argv_after_before by lia. apply init_argv_lt. lia. }
+  assert (Hf1 : firstn 1 A = [Some 0]).
+  { destruct A as [|x t]; [discriminate|]. simpl in HA0. inversion HA0. reflexivity. }
+  rewrite Hf1 in Hf.
+  assert (Hwords : map (fun k => nth k strs []) (kept_ids 1 sps) = snd (ideal pre tbl sps sto)).
+  { unfold ideal. rewrite ideal_words. cbn [app]. apply (kept_ids_words tbl); auto. }
+  assert (Hfin : exists fin, (if 1 <? 1 + length (kept_ids 1 sps) then argv_set a' (1 + length (kept_ids 1 sps)) None else Ok a') = Ok fin /\
+                             argv_words strs fin = prog :: snd (ideal pre tbl sps sto)).
+  { assert (Hjle : 1 + length (kept_ids 1 sps) <= length strs).
+    { rewrite <- Hkept. pose proof (somes_length_le (firstn (length strs - 1) (skipn 1 A))) as H.
+      rewrite firstn_length in H. lia. }
+    destruct (kept_ids 1 sps) as [|k0 ks] eqn:Ek.
+    - (* no word left: argv[1] is NULL already *)
+      cbn [length Nat.add Nat.ltb Nat.leb]. exists a'. split; [reflexivity|].
+      rewrite (Hsame eq_refl).
+      assert (HA1 : nth_error A 1 = Some None).
+      { destruct (nth_error A 1) as [x|] eqn:E1.
+        - replace (length strs - 1) with (S (length strs - 2)) in Hkept by lia.
+          rewrite (window_cons _ _ _ _ E1) in Hkept. now rewrite (somes_head_none _ _ Hkept).
+        - apply nth_error_None in E1. lia. }
+      rewrite (split_at A 1 None HA1), Hf1. rewrite <- Hwords. reflexivity.
+    - unfold argv_set.
+      assert (Hlt : 1 <? 1 + length (k0 :: ks) = true) by (apply Nat.ltb_lt; simpl; lia). rewrite Hlt.
+      assert (Hjl : 1 + length (k0 :: ks) <? length a' = true) by (apply Nat.ltb_lt; lia). rewrite Hjl.
+      eexists; split; [reflexivity|].
+      set (j := 1 + length (k0 :: ks)) in *.
+      assert (Hnj : nth_error (upd a' j None) j = Some None) by (apply nth_error_upd_eq; lia).
+      rewrite (split_at _ j None Hnj), firstn_upd_ge by lia. rewrite Hf.
+      change ([Some 0] ++ map Some (k0 :: ks)) with (map Some (0 :: k0 :: ks)).
+      rewrite argv_words_prefix. cbn [map]. rewrite <- Hwords. reflexivity. }
+  destruct Hfin as (fin & -> & Hw). cbn [bind].
+  eexists; split; [reflexivity|]. cbn [st_sto st_bad st_helps st_nbad st_argv set_argv]. repeat split; auto.
+  rewrite Epre in Hw. exact Hw.
+Qed.
+
+(* the usual client sequence: a pre-parse pass followed by the normal pass assigns the options of
+   both passes, and argv is compacted once, by the second pass *)
+Theorem parse_twice_round_trip tbl rm allow ret prog sps sto bad n :
+  wf_table n tbl -> names_ok tbl = true -> wf_store n sto -> nz_word prog = true -> sps_ok tbl sps = true ->
+  sps <> [] ->
+  let strs := prog :: render sps in
+  let e := mkenv tbl strs (length strs) true rm allow ret in
+  let sto1 := fst (ideal true tbl sps sto) in
+  exists s', parse_twice e (init_st (length strs) sto bad) = Ok (Done false s') /\
+             st_sto s' = fst (ideal false tbl sps sto1) /\
+             st_bad s' = bad /\ st_helps s' = 0 /\ st_nbad s' = 0 /\
+             (if rm then argv_words strs (st_argv s') = prog :: snd (ideal false tbl sps sto1)
+              else st_argv s' = init_argv (length strs)).
+Proof.
+  intros Hwt Hnames Hwf Hprog Hok Hne strs e sto1.
+  assert (Hlen : (length strs <=? 1) = false).
+  { apply Nat.leb_gt. subst strs. destruct (render sps) eqn:E; [apply render_nil in E; congruence|simpl; lia]. }
+  destruct (parse_round_trip tbl true rm allow ret prog sps sto bad n Hwt Hnames Hwf Hprog Hok)
+    as (s1 & Hp1 & Hs1 & Hb1 & Hh1 & Hn1 & Ha1).
+  fold strs in Hp1, Ha1. rewrite Hlen in Hp1. cbn [negb andb] in Ha1, Hp1.
+  unfold parse_twice. change (with_pre e true) with e.
+  unfold e. rewrite Hp1. cbn [bind].
+  assert (Hwf1 : wf_store n sto1).
+  { unfold sto1, ideal. clear - Hwf. generalize (@nil word). revert sto Hwf.
+    induction sps as [|sp r IH]; intros sto Hwf ws; [exact Hwf|]. cbn [fold_left].
+    destruct sp; cbn [ideal_one]; try (apply IH; now apply assign_ref_wf); [|apply IH; exact Hwf].
+    apply IH. revert sto Hwf. induction xs as [|x xs IHx]; intros sto Hwf; cbn [fold_left]; auto.
+    apply IHx. now apply assign_ref_wf. }
+  destruct (parse_round_trip tbl false rm allow ret prog sps sto1 bad n Hwt Hnames Hwf1 Hprog Hok)
+    as (s2 & Hp2 & Hs2 & Hb2 & Hh2 & Hn2 & Ha2).
+  fold strs in Hp2, Ha2. rewrite Hlen in Hp2. cbn [negb andb] in Ha2, Hp2.
+  exists s2. split; [|auto].
+  (* the second call starts from the first call's final state, which is the initial state again
+     except for the targets *)
+  unfold with_pre. cbn [e_tbl e_strs e_argc e_rm e_allow e_ret].
+  rewrite <- Hp2. unfold parse, parse_with. cbn [e_argc e_strs]. rewrite Hlen.
+  rewrite Ha1. cbn [init_st st_argv].
+  replace (set_i s1 1) with (set_i (init_st (length strs) sto1 bad) 1); [reflexivity|].
+  destruct s1; cbn in *. subst. reflexivity.
 Qed.
